@@ -10,7 +10,9 @@ classes.  Exact comparison for the dyadic stream, 1e-12 of the natural scale oth
 `hypot`/`norm`/trig values are validated numerically.  Monitors: the statements of the property
 evaluated on the real results of every case."""
 import itertools
+import json
 import math
+import os
 from fractions import Fraction
 
 import numpy as np
@@ -26,19 +28,26 @@ REQUIRED_THEOREMS = [
     "normalize_in_domain", "normalize_idempotent", "normalize_moves_by_periods",
     "reflect_in_domain", "reflect_idempotent", "wrap_abs_le_half_period",
     "wrap_invariant_under_period_shift", "distance_symmetric", "periodic_flag_pairs_with_its_axis",
+    # grid-level statements / compositions about the definitions the driver evaluates
+    "grid_centres_and_dx", "cell_cart_cell", "cart_cell_cart_radius", "contained_in_all_coords",
+    "normalizePoint_contained", "distance_invariant_under_period_shift",
+    "distance_invariant_under_period_shift_grid", "distance_invariant_under_period_shift_cell",
 ]
 RULE = ("random grids of every class (UnitGrid, CartesianGrid 1-3d, PolarSymGrid, SphericalSymGrid, "
-        "CylindricalSymGrid; 1..200 cells, dyadic and decimal bounds, negative/tiny/huge scales, reversed "
+        "CylindricalSymGrid; 1..200 cells, dyadic and decimal bounds, negative bounds, scales 2^-100..2^100 / "
+        "1e-30..1e30 chosen per axis, reversed "
         "bounds, inner radii, every periodicity pattern) x operation legs (geometry, integrate over every "
         "axis subset, project, transform, contains, normalize(+reflect), distance, random point, coordinate "
-        "maps, malformed input) with point batches built from inside points, faces, cell centres, seams, "
+        "maps, malformed input) with point batches (single, 1-d, 2-d, empty; keyword arguments given or left at "
+        "their defaults) built from inside points, faces, cell centres, seams, "
         "far-outside points, half-period ties and integer-typed points; a case is distinct by (leg, grid "
         "spec, inputs) and non-trivial if its expected result is not constant: geometry/integrate with at "
         "least one non-uniform or multi-cell axis, point legs where at least one point is moved / wrapped / "
         "outside / off-axis, malformed cases never count as non-trivial")
 ASSUMPTIONS = [
     "exact field arithmetic in the model; the real results are compared exactly on the dyadic stream and "
-    "within 1e-12 (1e-11 for sums) of the natural scale otherwise",
+    "within 1e-12 (1e-11 for sums) of the natural scale otherwise; the natural scale of a coordinate is the "
+    "scale of ITS axis (max(|lo|,|hi|,|coordinate|)), never the largest axis of the grid",
     "pi is symbolic in the theorems; the driver evaluates the model with the double math.pi",
     "hypot / norm / arccos / cos / sin / x**(1/d) of the real code are external: validated numerically "
     "(r~^2 = x^2+y^2(+z^2) at 1e-12, (c,s) pairs taken from numpy)",
@@ -121,11 +130,11 @@ def gen_interval(rng, mode, positive=False):
     """(lo, hi, scale): dyadic -> exactly representable with few bits (times a power of two),
     decimal -> arbitrary doubles"""
     if mode == "dyadic":
-        s = rng.choice([1.0, 1.0, 1.0, 2.0 ** -24, 2.0 ** 20, 2.0 ** -3])
+        s = rng.choice([1.0, 1.0, 1.0, 1.0, 2.0 ** -24, 2.0 ** 20, 2.0 ** -3, 2.0 ** -100, 2.0 ** 100, 2.0 ** -60, 2.0 ** 50])
         lo = 0.0 if (positive and rng.random() < 0.5) else (dyadic(rng, 0 if positive else -40, 40) * s)
         L = dyadic(rng, 1, 48) * s
         return lo, lo + L
-    s = rng.choice([1.0, 1.0, 1.0, 1e-6, 1e5, 0.37, 1e-3, 123.0])
+    s = rng.choice([1.0, 1.0, 1.0, 1.0, 1e-6, 1e5, 0.37, 1e-3, 123.0, 1e-30, 1e30, 1e-12, 1e9])
     lo = 0.0 if (positive and rng.random() < 0.5) else round(rng.uniform(0 if positive else -30, 30), 3) * s
     L = rng.choice([0.1, 0.3, 1.0, 2.5, 3.3, 7.0, 10.0, 1 / 3, 6.283, rng.uniform(0.01, 20)]) * s
     return lo, lo + L
@@ -183,6 +192,20 @@ def fr(x):
     return Fraction(float(x))
 
 
+def far(a, b, tol):
+    """NaN-safe comparison: True unless EVERY |a-b| <= tol (a non-finite value counts as a
+    difference; empty arrays never differ).  `tol` may be an array broadcast against a-b."""
+    with np.errstate(invalid="ignore", over="ignore"):
+        d = np.abs(np.asarray(a, dtype=float) - np.asarray(b, dtype=float))
+        return not bool(np.all(d <= tol))
+
+
+def absmax(a, axis=None):
+    """max |a| (0 for empty arrays); NaN propagates"""
+    a = np.abs(np.asarray(a, dtype=float))
+    return np.max(a, axis=axis, initial=0.0)
+
+
 def same(m, x, scale, exact, tol=TOL):
     """model value m (Fraction) vs real value x (float)"""
     x = float(x)
@@ -200,9 +223,52 @@ def same_list(ms, xs, scale, exact, tol=TOL):
     return len(ms) == len(xs) and all(same(m, x, scale, exact, tol) for m, x in zip(ms, xs))
 
 
-def coord_scale(spec):
-    b = spec_bounds(spec)
-    return max(1e-300, max(float(max(abs(lo), abs(hi))) for lo, hi in b))
+def diff_pts(mrows, flat, scales, exact, tol=TOL):
+    """model points (rows of Fractions) vs real points (n, k) with one scale PER COLUMN; the
+    first difference or None"""
+    flat = np.asarray(flat, dtype=float)
+    if len(mrows) != len(flat):
+        return {"len_model": len(mrows), "len_impl": len(flat)}
+    for i, (mrow, irow) in enumerate(zip(mrows, flat)):
+        if len(mrow) != len(irow):
+            return {"point": i, "len_model": len(mrow), "len_impl": len(irow)}
+        for j, (a, y) in enumerate(zip(mrow, irow)):
+            if not same(a, y, float(scales[j]), exact, tol):
+                return {"point": i, "column": j, "model": float(a), "impl": float(y)}
+    return None
+
+
+def axis_scales(spec):
+    """natural scale of the coordinate of each described axis: max(|lo|, |hi|)"""
+    return np.array([max(1e-300, float(max(abs(lo), abs(hi)))) for lo, hi in spec_bounds(spec)])
+
+
+def cart_scales(spec):
+    """natural scale of each Cartesian component"""
+    a = axis_scales(spec)
+    c = spec["cls"]
+    if c == "polar":
+        return np.array([a[0], a[0]])
+    if c == "spherical":
+        return np.array([a[0]] * 3)
+    if c == "cylindrical":
+        return np.array([a[0], a[0], a[1]])
+    return a
+
+
+def cart_point_scales(spec, flat):
+    """per Cartesian component: max(scale of the component, largest |coordinate| of the points);
+    the components that share the radius of a symmetric grid share one scale"""
+    flat = np.asarray(flat, dtype=float).reshape(-1, dim_of(spec))
+    s = np.maximum(cart_scales(spec), absmax(flat, axis=0))
+    c = spec["cls"]
+    if c == "polar":
+        s[:] = s.max()
+    elif c == "spherical":
+        s[:] = s.max()
+    elif c == "cylindrical":
+        s[:2] = s[:2].max()
+    return s
 
 
 def first_diff(ms, xs, scale, exact, tol=TOL):
@@ -247,12 +313,50 @@ class Pending:
         self.todo = []
 
 
+class NoModel:
+    """monitors only (failing-input search, replay of a failing input)"""
+
+    def add(self, *a, **k):
+        pass
+
+    def run(self):
+        pass
+
+
 def expect_ok(ctx, resp, leg, case):
     status, val = resp
     if status != "ok":
         ctx.disagree(leg, case, f"model error: {val}", None)
         return None
     return val
+
+
+# the case whose real-code calls are being executed (so that an exception escaping a leg is
+# reported with the concrete inputs, see _guard)
+_CUR = {"case": None}
+
+
+def _begin(case):
+    _CUR["case"] = case
+
+
+def raised(ctx, leg, case, spec, e, call):
+    """the real code raised on a valid input: a failing input of the property (with the inputs),
+    not a mere disagreement"""
+    cls = (spec or {}).get("cls") if isinstance(spec, dict) else None
+    ctx.monitor_evals += 1
+    ctx.monitor_fail(leg, case, {"raised": f"{type(e).__name__}: {e}"[:400], "call": call},
+                     "no exception on a valid grid / point",
+                     f"{cls}: the real code raised {type(e).__name__} on a valid input (leg {leg})",
+                     key={"grid_class": cls, "leg": leg, "symptom": f"raised-{type(e).__name__}"})
+
+
+def _arr(pts, shape=None, dtype=float):
+    """recorded points -> array of the recorded shape (an empty batch keeps its last dimension)"""
+    a = np.array(pts, dtype=dtype)
+    if shape is not None:
+        a = a.reshape(tuple(shape))
+    return a
 
 
 # ------------------------------------------------------------------------------------------
@@ -286,28 +390,29 @@ def cell_measure(spec, ax, i):
 
 def vol_scale(spec):
     """natural scale of volumes: product of the 'outer' measures of the axes"""
+    return float(np.prod([axis_measure_outer(spec, ax) for ax in range(len(spec["shape"]))]))
+
+
+def axis_measure_outer(spec, ax):
     b = spec_bounds(spec)
+    lo, hi = float(b[ax][0]), float(b[ax][1])
     c = spec["cls"]
-    s = 1.0
-    for ax, (lo, hi) in enumerate(b):
-        lo, hi = float(lo), float(hi)
-        if c == "polar" or (c == "cylindrical" and ax == 0):
-            s *= PI * hi * hi
-        elif c == "spherical":
-            s *= 4 / 3 * PI * hi ** 3
-        else:
-            s *= hi - lo
-    return s
+    if c == "polar" or (c == "cylindrical" and ax == 0):
+        return PI * hi * hi
+    if c == "spherical":
+        return 4 / 3 * PI * hi ** 3
+    return max(hi - lo, 1e-300)
 
 
 def leg_geometry(ctx, P, spec):
     g = build(spec)
     exact = exact_grid(spec)
     case = {"leg": "geometry", "grid": spec}
+    _begin(case)
     nontrivial = any(n > 1 for n in spec["shape"])
     ctx.count(case, nontrivial=nontrivial, leg="geometry")
     ctx.hist("geometry", f"{spec['cls']}/{spec['mode']}/{'exact' if exact else 'tol'}")
-    cs = coord_scale(spec)
+    asc = axis_scales(spec)
     vs = vol_scale(spec)
     b = spec_bounds(spec)
     impl = {
@@ -326,18 +431,19 @@ def leg_geometry(ctx, P, spec):
     for ax, ((lo, hi), n) in enumerate(zip(b, spec["shape"])):
         lo_f, hi_f = float(lo), float(hi)
         dxe = (hi_f - lo_f) / n
-        if abs(impl["dx"][ax] - dxe) > TOL * max(abs(dxe), 1e-300):
+        if not (abs(impl["dx"][ax] - dxe) <= TOL * max(abs(dxe), 1e-300)):
             bad.set(f"dx[{ax}]={impl['dx'][ax]!r} != (hi-lo)/N={dxe!r}")
-        for i, x in enumerate(impl["coords"][ax]):
-            xe = float(lo + (hi - lo) * (2 * i + 1) / (2 * n))
-            if abs(x - xe) > TOL * cs:
-                bad.set(f"centre[{ax}][{i}]={x!r} != lo+(i+1/2)dx={xe!r}")
-                break
         if len(impl["coords"][ax]) != n:
             bad.set(f"axis {ax} has {len(impl['coords'][ax])} centres for N={n}")
+        for i, x in enumerate(impl["coords"][ax]):
+            xe = float(lo + (hi - lo) * (2 * i + 1) / (2 * n))
+            # scale of THIS axis (a grid mixes scales from 1e-30 to 1e30)
+            if not (abs(x - xe) <= TOL * asc[ax]):
+                bad.set(f"centre[{ax}][{i}]={x!r} != lo+(i+1/2)dx={xe!r}")
+                break
         for i in range(n):
             ve = cell_measure(spec, ax, i)
-            if abs(impl["voldata"][ax][i] - ve) > TOL_SUM * axis_measure_outer(spec, ax):
+            if not (abs(impl["voldata"][ax][i] - ve) <= TOL_SUM * axis_measure_outer(spec, ax)):
                 bad.set(f"cell_volume_data[{ax}][{i}]={impl['voldata'][ax][i]!r} != closed form {ve!r}")
                 break
     for name in ("dx", "volume"):
@@ -346,13 +452,13 @@ def leg_geometry(ctx, P, spec):
     if not all(np.all(np.isfinite(c)) for c in impl["coords"]) or not np.all(np.isfinite(impl["cellvols"])):
         bad.set("non-finite coordinates / cell volumes")
     vol_e = float(np.prod([axis_measure(spec, ax) for ax in range(len(b))]))
-    if abs(impl["volume"] - vol_e) > TOL_SUM * vs:
+    if not (abs(impl["volume"] - vol_e) <= TOL_SUM * vs):
         bad.set(f"volume={impl['volume']!r} != closed form {vol_e!r}")
     sv = float(impl["cellvols"].sum())
-    if abs(sv - impl["volume"]) > TOL_SUM * vs:
+    if not (abs(sv - impl["volume"]) <= TOL_SUM * vs):
         bad.set(f"sum(cell_volumes)={sv!r} != volume={impl['volume']!r}")
     i1 = float(g.integrate(1))
-    if abs(i1 - impl["volume"]) > TOL_SUM * vs:
+    if not (abs(i1 - impl["volume"]) <= TOL_SUM * vs):
         bad.set(f"integrate(1)={i1!r} != volume={impl['volume']!r}")
     if impl["cellvols"].shape != tuple(spec["shape"]):
         bad.set(f"cell_volumes has shape {impl['cellvols'].shape}")
@@ -362,7 +468,7 @@ def leg_geometry(ctx, P, spec):
         xl = g._coords_full(g.cell_coords - d2, value="min")
         xh = g._coords_full(g.cell_coords + d2, value="max")
         cv = np.asarray(g.c.cell_volume(xl, xh), dtype=float)
-        if cv.shape != impl["cellvols"].shape or np.max(np.abs(cv - impl["cellvols"])) > TOL_SUM * vs:
+        if cv.shape != impl["cellvols"].shape or far(cv, impl["cellvols"], TOL_SUM * vs):
             bad.set("coordinates.cell_volume over the full angular range differs from grid.cell_volumes")
     except Exception as e:  # noqa: BLE001
         bad.set(f"coordinates.cell_volume raised {type(e).__name__}: {e}")
@@ -378,19 +484,23 @@ def leg_geometry(ctx, P, spec):
         ctx.impl_traces += 1
         probs = []
         mb = [[unq(x) for x in bb] for bb in zip(mgrid(spec)["lo"], mgrid(spec)["hi"])]
-        if not same_list([x for bb in mb for x in bb], [x for bb in impl["bounds"] for x in bb], cs, exact):
-            probs.append(("axes_bounds", [[float(x) for x in bb] for bb in mb], impl["bounds"]))
+        for ax, (bb, ib) in enumerate(zip(mb, impl["bounds"])):
+            if not same_list(bb, ib, asc[ax], exact):
+                probs.append(("axes_bounds", [[float(x) for x in bb] for bb in mb], impl["bounds"]))
+                break
+        if len(mb) != len(impl["bounds"]):
+            probs.append(("axes_bounds", len(mb), len(impl["bounds"])))
         if impl["shape"] != list(spec["shape"]) or impl["periodic"] != [bool(p) for p in spec["periodic"]]:
             probs.append(("shape/periodic", [spec["shape"], spec["periodic"]], [impl["shape"], impl["periodic"]]))
         if impl["dim"] != m["dim"] or impl["num_axes"] != len(spec["shape"]):
             probs.append(("dim", m["dim"], impl["dim"]))
         mdx = [unq(x) for x in m["dx"]]
-        if not same_list(mdx, impl["dx"], max(float(abs(x)) for x in mdx), exact):
+        if len(mdx) != len(impl["dx"]) or not all(same(a, y, float(abs(a)), exact) for a, y in zip(mdx, impl["dx"])):
             probs.append(("discretization", [float(x) for x in mdx], impl["dx"]))
         for ax, (mc, ic) in enumerate(zip(m["coords"], impl["coords"])):
             mc = [unq(x) for x in mc]
-            if not same_list(mc, ic, cs, exact):
-                probs.append((f"axes_coords[{ax}]", first_diff(mc, ic, cs, exact), None))
+            if not same_list(mc, ic, asc[ax], exact):
+                probs.append((f"axes_coords[{ax}]", first_diff(mc, ic, asc[ax], exact), None))
         for ax, (mv, iv) in enumerate(zip(m["voldata"], impl["voldata"])):
             mv = [unq(x) for x in mv]
             sc = axis_measure_outer(spec, ax)
@@ -414,25 +524,16 @@ def leg_geometry(ctx, P, spec):
             if m is None:
                 return
             ctx.impl_traces += 1
-            mv = [unq(x) for bb in m for x in bb]
-            iv = [x for ax in range(len(spec["shape"])) for x in (corners[0][ax], corners[1][ax])]
-            iv2 = [x for bb in impl["bounds"] for x in bb]
-            if not same_list(mv, iv, cs, exact) or not same_list(mv, iv2, cs, exact):
-                ctx.disagree("geometry", case, {"cuboid": [float(x) for x in mv]}, {"corners": iv, "axes_bounds": iv2},
-                             "Cuboid.from_bounds")
+            for ax, bb in enumerate(m):
+                mv = [unq(x) for x in bb]
+                iv = [corners[0][ax], corners[1][ax]]
+                iv2 = list(impl["bounds"][ax])
+                if not same_list(mv, iv, asc[ax], exact) or not same_list(mv, iv2, asc[ax], exact):
+                    ctx.disagree("geometry", case, {"cuboid": [float(x) for x in mv], "axis": ax},
+                                 {"corners": iv, "axes_bounds": iv2}, "Cuboid.from_bounds")
+                    break
 
         P.add("c12.cuboid", {"lo": [q(bb[0]) for bb in spec["bounds"]], "hi": [q(bb[1]) for bb in spec["bounds"]]}, cont2)
-
-
-def axis_measure_outer(spec, ax):
-    b = spec_bounds(spec)
-    lo, hi = float(b[ax][0]), float(b[ax][1])
-    c = spec["cls"]
-    if c == "polar" or (c == "cylindrical" and ax == 0):
-        return PI * hi * hi
-    if c == "spherical":
-        return 4 / 3 * PI * hi ** 3
-    return max(hi - lo, 1e-300)
 
 
 def _js(o):
@@ -462,39 +563,48 @@ def gen_data(rng, shape, kind):
     return np.array(vals, dtype=float).reshape(shape)
 
 
-def leg_integrate(ctx, P, spec, rng):
+def leg_integrate(ctx, P, spec, rng, force=None):
+    """`force`: a recorded case - exactly its data, axis subset and form of the `axes` argument"""
     g = build(spec)
     k = len(spec["shape"])
-    vs = vol_scale(spec)
-    subsets = [tuple(s) for r in range(k + 1) for s in itertools.combinations(range(k), r)]
-    kind = rng.choice(["ones", "index", "random", "random"])
-    data = gen_data(rng, spec["shape"], kind)
-    dscale = max(1.0, float(np.max(np.abs(data))))
-    for sub in subsets:
-        how = rng.choice(["tuple", "list", "none-if-all", "int-if-single"])
+    if force is not None:
+        kind = force.get("kind", "recorded")
+        data = _arr(force["data"], spec["shape"])
+        jobs = [(tuple(force["axes"]), force["axes_arg"])]
+    else:
+        subsets = [tuple(s) for r in range(k + 1) for s in itertools.combinations(range(k), r)]
+        kind = rng.choice(["ones", "index", "random", "random"])
+        data = gen_data(rng, spec["shape"], kind)
+        jobs = [(sub, rng.choice(["tuple", "list", "none-if-all", "int-if-single", "default-if-all"])) for sub in subsets]
+    dscale = max(1.0, float(absmax(data)))
+    for sub, how in jobs:
         axes_arg = list(sub) if how == "list" else tuple(sub)
+        kwargs = {"axes": axes_arg}
         if how == "none-if-all" and len(sub) == k:
-            axes_arg = None
+            kwargs = {"axes": None}
         if how == "int-if-single" and len(sub) == 1:
-            axes_arg = sub[0]
+            kwargs = {"axes": sub[0]}
+        if how == "default-if-all" and len(sub) == k:
+            kwargs = {}                       # the default `axes=None`: all axes
         sel = [ax in sub for ax in range(k)]
         case = {"leg": "integrate", "grid": spec, "axes": list(sub), "axes_arg": how, "data": data.ravel().tolist()}
+        _begin(case)
         ctx.count(case, nontrivial=(len(sub) > 0 and (kind != "ones" or any(n > 1 for n in spec["shape"]))),
                   leg="integrate")
         ctx.hist("integrate", f"{spec['cls']}/{k}axes/subset{len(sub)}/{kind}")
+        ctx.hist("default-args", f"integrate/axes {'left out' if not kwargs else 'given as ' + type(kwargs['axes']).__name__}")
         try:
-            res = np.asarray(g.integrate(data, axes=axes_arg), dtype=float)
-            one = np.asarray(g.integrate(1, axes=axes_arg), dtype=float)
+            res = np.asarray(g.integrate(data, **kwargs), dtype=float)
+            one = np.asarray(g.integrate(1, **kwargs), dtype=float)
             # data with a leading component axis (vector field): every component separately
             vec = np.stack([data, 2 * data[::-1] + 1])
-            resv = np.asarray(g.integrate(vec, axes=axes_arg), dtype=float)
-            res1 = np.asarray(g.integrate(vec[1], axes=axes_arg), dtype=float)
+            resv = np.asarray(g.integrate(vec, **kwargs), dtype=float)
+            res1 = np.asarray(g.integrate(vec[1], **kwargs), dtype=float)
         except Exception as e:  # noqa: BLE001
-            ctx.disagree("integrate", case, "value", f"{type(e).__name__}: {e}", "real code raised")
+            raised(ctx, "integrate", case, spec, e, f"grid.integrate(data, {kwargs})")
             continue
-        tolv = 1e-11 * (1 + float(np.max(np.abs(resv)))) if resv.size else 0.0
-        if resv.shape != (2,) + res.shape or np.max(np.abs(resv[0] - res), initial=0.0) > tolv \
-                or np.max(np.abs(resv[1] - res1), initial=0.0) > tolv:
+        tolv = 1e-11 * (1 + float(absmax(resv)))
+        if resv.shape != (2,) + res.shape or far(resv[0], res, tolv) or far(resv[1], res1, tolv):
             ctx.disagree("integrate", case, "componentwise", {"vector": resv.tolist(), "components": [res.tolist(), res1.tolist()]},
                          "integrate of data with a leading component axis")
         # monitor: integrating 1 over the selected axes gives the product of their measures
@@ -502,7 +612,7 @@ def leg_integrate(ctx, P, spec, rng):
         meas = float(np.prod([axis_measure(spec, ax) for ax in sub])) if sub else 1.0
         msc = float(np.prod([axis_measure_outer(spec, ax) for ax in sub])) if sub else 1.0
         ret_shape = tuple(n for ax, n in enumerate(spec["shape"]) if ax not in sub)
-        if one.shape != ret_shape or not np.all(np.isfinite(one)) or np.max(np.abs(one - meas)) > TOL_SUM * msc:
+        if one.shape != ret_shape or far(one, meas, TOL_SUM * msc):
             ctx.monitor_fail("integrate", case, {"integrate(1)": one.tolist(), "shape": list(one.shape)},
                              {"measure": meas, "shape": list(ret_shape)},
                              f"{spec['cls']}: integrate(1, axes) is not the measure of the selected axes",
@@ -521,27 +631,34 @@ def leg_integrate(ctx, P, spec, rng):
 
         P.add("c12.integrate", {"grid": mgrid(spec), "pi": q(PI), "sel": sel,
                                 "data": [q(x) for x in data.ravel()]}, cont)
-    _ = vs
 
 
-def leg_project(ctx, P, spec, rng):
+def leg_project(ctx, P, spec, rng, force=None):
+    """`force`: a recorded case - exactly its data, removed axes and form of the argument"""
     import pde
     g = build(spec)
     k = len(spec["shape"])
     if k < 2:
         return
-    data = gen_data(rng, spec["shape"], rng.choice(["index", "random", "random"]))
-    f = pde.ScalarField(g, data)
-    if spec["cls"] == "cylindrical":
-        subsets = [(0,), (1,)]
+    if force is not None:
+        data = _arr(force["data"], spec["shape"])
+        jobs = [(tuple(force["remove"]), force.get("arg_form", "list"))]
     else:
-        subsets = [tuple(s) for r in range(1, k) for s in itertools.combinations(range(k), r)]
+        data = gen_data(rng, spec["shape"], rng.choice(["index", "random", "random"]))
+        if spec["cls"] == "cylindrical":
+            subsets = [(0,), (1,)]
+        else:
+            subsets = [tuple(s) for r in range(1, k) for s in itertools.combinations(range(k), r)]
+        jobs = [(sub, "name" if len(sub) == 1 and rng.random() < 0.5 else "list") for sub in subsets]
+    f = pde.ScalarField(g, data)
     vs = vol_scale(spec)
-    dscale = max(1.0, float(np.max(np.abs(data)))) * data.size
-    for sub in subsets:
+    asc = axis_scales(spec)
+    dscale = max(1.0, float(absmax(data))) * data.size
+    for sub, arg_form in jobs:
         names = [g.axes[ax] for ax in sub]
-        arg = names[0] if len(names) == 1 and rng.random() < 0.5 else names
-        case = {"leg": "project", "grid": spec, "remove": list(sub), "data": data.ravel().tolist()}
+        arg = names[0] if arg_form == "name" else names
+        case = {"leg": "project", "grid": spec, "remove": list(sub), "arg_form": arg_form, "data": data.ravel().tolist()}
+        _begin(case)
         ctx.count(case, nontrivial=True, leg="project")
         ctx.hist("project", f"{spec['cls']}/{k}axes/remove{len(sub)}")
         try:
@@ -552,10 +669,10 @@ def leg_project(ctx, P, spec, rng):
             simpl = {"cls": type(sg).__name__, "bounds": [[float(x) for x in b] for b in sg.axes_bounds],
                      "shape": list(sg.shape), "periodic": [bool(x) for x in sg.periodic]}
         except Exception as e:  # noqa: BLE001
-            ctx.disagree("project", case, "value", f"{type(e).__name__}: {e}", "real code raised")
+            raised(ctx, "project", case, spec, e, f"ScalarField.project({arg!r})")
             continue
         ctx.monitor_evals += 1
-        if not (math.isfinite(pint) and math.isfinite(fint)) or abs(pint - fint) > TOL_SUM * vs * dscale:
+        if not (abs(pint - fint) <= TOL_SUM * vs * dscale):
             ctx.monitor_fail("project", case, {"projected.integral": pint, "field.integral": fint},
                              "equal integrals", f"{spec['cls']}: projection changes the integral",
                              key={"grid_class": spec["cls"], "leg": "project"})
@@ -576,8 +693,9 @@ def leg_project(ctx, P, spec, rng):
             ms = m["sliced"]
             cname = {"unit": "UnitGrid", "cartesian": "CartesianGrid", "polar": "PolarSymGrid"}.get(ms["cls"], ms["cls"])
             mb = [[float(unq(a)), float(unq(b))] for a, b in zip(ms["lo"], ms["hi"])]
-            okb = len(mb) == len(simpl["bounds"]) and all(
-                abs(x - y) <= TOL * coord_scale(spec) for bb, cc in zip(mb, simpl["bounds"]) for x, y in zip(bb, cc))
+            kept = [ax for ax in range(k) if ax not in sub]
+            okb = len(mb) == len(simpl["bounds"]) == len(kept) and all(
+                abs(x - y) <= TOL * asc[ax] for ax, bb, cc in zip(kept, mb, simpl["bounds"]) for x, y in zip(bb, cc))
             if cname != simpl["cls"] or not okb or ms["n"] != simpl["shape"] or ms["periodic"] != simpl["periodic"]:
                 ctx.disagree("project", case, {"sliced": [cname, mb, ms["n"], ms["periodic"]]}, {"sliced": simpl},
                              "sliced grid")
@@ -637,14 +755,23 @@ def gen_points(rng, spec, m):
 
 
 def shape_batch(rng, pts):
-    """present a batch as a single point, a list of points or a 2-d batch"""
+    """present a batch as a single point, a list of points, a 2-d batch or an empty batch"""
     m, k = pts.shape
     r = rng.random()
     if m >= 4 and m % 2 == 0 and r < 0.25:
         return pts.reshape(2, m // 2, k).copy(), "batch-2d"
     if r < 0.4:
         return pts[0].copy(), "single"
+    if r < 0.44:
+        return np.zeros((0, k)), "empty"
     return pts.copy(), "batch"
+
+
+def shape_name(a):
+    a = np.asarray(a)
+    if a.size == 0:
+        return "empty"
+    return {0: "scalar", 1: "single", 2: "batch"}.get(a.ndim, "batch-2d")
 
 
 def flat_pts(a, k):
@@ -701,37 +828,78 @@ def rotate_cart(rng, spec, cart):
     return out
 
 
-def leg_transform(ctx, P, spec, rng):
+class Frame:
+    """bounds, spacings and the per-axis tolerance units of one grid"""
+
+    def __init__(self, spec):
+        self.spec = spec
+        b = spec_bounds(spec)
+        self.lo = np.array([float(x[0]) for x in b])
+        self.hi = np.array([float(x[1]) for x in b])
+        self.L = self.hi - self.lo
+        self.dxs = np.array([float(x[1] - x[0]) / n for x, n in zip(b, spec["shape"])])
+        self.asc = axis_scales(spec)
+        self.k = len(b)
+        self.d = dim_of(spec)
+        self.sym = spec["cls"] not in ("unit", "cartesian")
+
+    def unit(self, system, flat):
+        """natural scale of every column of points given in `system` (the tolerance is a multiple of
+        it): the scale of the axis / Cartesian component the column belongs to, never that of
+        another axis; cell coordinates inherit the scale of their grid coordinate divided by dx"""
+        flat = np.asarray(flat, dtype=float)
+        if system == "grid":
+            return np.maximum(self.asc, absmax(flat.reshape(-1, self.k), axis=0))
+        if system == "cell":
+            x = self.lo + flat.reshape(-1, self.k) * self.dxs
+            return np.maximum(self.asc, absmax(x, axis=0)) / self.dxs
+        return cart_point_scales(self.spec, flat)
+
+
+def leg_transform(ctx, P, spec, rng, force=None):
+    """`force`: a recorded case - exactly its source, target and points (or the centre monitor of
+    its axis)"""
     g = build(spec)
-    k = len(spec["shape"])
+    F = Frame(spec)
+    k = F.k
     exact = exact_grid(spec)
-    cs = coord_scale(spec)
-    m = rng.choice([1, 2, 4, 6])
-    gp, cats = gen_points(rng, spec, m)
-    if spec["cls"] not in ("unit", "cartesian"):
-        gp[:, 0] = np.abs(gp[:, 0])          # radii of points are non-negative
-    cellp = (gp - np.array([float(b[0]) for b in spec_bounds(spec)])) / np.array(
-        [float(b[1] - b[0]) / n for b, n in zip(spec_bounds(spec), spec["shape"])])
-    if exact:
-        cellp = np.round(cellp * 64) / 64
-    if spec["cls"] not in ("unit", "cartesian"):
-        # keep the radius of the cell-coordinate points non-negative as well (rounding may push it below 0)
-        b0 = spec_bounds(spec)[0]
-        cmin = float(-b0[0] / ((b0[1] - b0[0]) / spec["shape"][0]))
-        cellp[:, 0] = np.maximum(cellp[:, 0], math.ceil(cmin * 64) / 64)
-    cart = rotate_cart(rng, spec, to_cart_py(spec, gp))
-    sources = {"grid": gp, "cell": cellp, "cartesian": cart}
-    sym = spec["cls"] not in ("unit", "cartesian")
-    for src, tgt in itertools.product(["cartesian", "grid", "cell"], repeat=2):
-        pts_in, shp = shape_batch(rng, sources[src])
+    sym = F.sym
+    centre_axes = list(range(k))
+    if force is not None and force.get("sub") == "centres":
+        jobs, centre_axes = [], [int(force["axis"])]
+    elif force is not None:
+        jobs, centre_axes = [(force["source"], force["target"], _arr(force["pts"], force.get("shape")))], []
+    else:
+        m = rng.choice([1, 2, 4, 6])
+        gp, cats = gen_points(rng, spec, m)
+        if sym:
+            gp[:, 0] = np.abs(gp[:, 0])          # radii of points are non-negative
+        cellp = (gp - F.lo) / F.dxs
+        if exact:
+            cellp = np.round(cellp * 64) / 64
+        if sym:
+            # keep the radius of the cell-coordinate points non-negative as well (rounding may push it below 0)
+            b0 = spec_bounds(spec)[0]
+            cmin = float(-b0[0] / ((b0[1] - b0[0]) / spec["shape"][0]))
+            cellp[:, 0] = np.maximum(cellp[:, 0], math.ceil(cmin * 64) / 64)
+        cart = rotate_cart(rng, spec, to_cart_py(spec, gp))
+        sources = {"grid": gp, "cell": cellp, "cartesian": cart}
+        jobs = []
+        for src, tgt in itertools.product(["cartesian", "grid", "cell"], repeat=2):
+            jobs.append((src, tgt, shape_batch(rng, sources[src])[0]))
+    for src, tgt, pts_in in jobs:
+        shp = shape_name(pts_in)
         kin = pts_in.shape[-1]
-        case = {"leg": "transform", "grid": spec, "source": src, "target": tgt, "pts": pts_in.tolist()}
-        ctx.count(case, nontrivial=(src != tgt), leg="transform")
+        case = {"leg": "transform", "grid": spec, "source": src, "target": tgt, "pts": pts_in.tolist(),
+                "shape": list(pts_in.shape)}
+        _begin(case)
+        ctx.count(case, nontrivial=(src != tgt and pts_in.size > 0), leg="transform")
         ctx.hist("transform", f"{spec['cls']}/{src}->{tgt}/{shp}")
+        ctx.hist("batch-shape", f"transform/{shp}")
         try:
             res = np.array(g.transform(pts_in.copy(), src, tgt), dtype=float)
         except Exception as e:  # noqa: BLE001
-            ctx.disagree("transform", case, "value", f"{type(e).__name__}: {e}", "real code raised")
+            raised(ctx, "transform", case, spec, e, f"grid.transform(points, {src!r}, {tgt!r})")
             continue
         kout = dim_of(spec) if tgt == "cartesian" else k
         flat_in = flat_pts(pts_in, kin)
@@ -745,15 +913,18 @@ def leg_transform(ctx, P, spec, rng):
         else:
             try:
                 back = np.array(g.transform(res.copy(), tgt, src), dtype=float)
-                sc = cs if src != "cell" else max(spec["shape"]) * max(1.0, float(np.max(np.abs(cellp))) / max(spec["shape"]))
-                if src == "cartesian" and sym and tgt != "cartesian":
+                if back.shape != pts_in.shape:
+                    bad = f"{src}->{tgt}->{src} returns shape {back.shape} for input shape {pts_in.shape}"
+                elif src == "cartesian" and sym and tgt != "cartesian":
                     # up to the symmetry projection: the radius (and z) is preserved
-                    r0, r1 = radial_value(spec, flat_in), radial_value(spec, flat_pts(back, kin))
-                    if np.max(np.abs(r0 - r1)) > 1e-11 * cs:
+                    fb = flat_pts(back, kin)
+                    r0, r1 = radial_value(spec, flat_in), radial_value(spec, fb)
+                    u = F.unit("cartesian", flat_in)
+                    if far(r0, r1, 1e-11 * u[0]):
                         bad = f"cartesian->{tgt}->cartesian changes the radius: {r0.tolist()} vs {r1.tolist()}"
-                    if spec["cls"] == "cylindrical" and np.max(np.abs(flat_in[:, 2] - flat_pts(back, kin)[:, 2])) > 1e-11 * cs:
+                    if spec["cls"] == "cylindrical" and far(flat_in[:, 2], fb[:, 2], 1e-11 * u[2]):
                         bad = "cartesian->grid->cartesian changes z"
-                elif np.max(np.abs(back - pts_in)) > 1e-11 * sc:
+                elif far(flat_pts(back, kin), flat_in, 1e-11 * F.unit(src, flat_in)):
                     bad = f"{src}->{tgt}->{src} is not the identity: {pts_in.tolist()} -> {back.tolist()}"
             except Exception as e:  # noqa: BLE001
                 bad = f"back transform raised {type(e).__name__}: {e}"
@@ -761,6 +932,12 @@ def leg_transform(ctx, P, spec, rng):
             ctx.monitor_fail("transform", case, {"result": res.tolist(), "problem": bad}, "mutually inverse conversions",
                              f"{spec['cls']}: transform {src}->{tgt} round trip",
                              key={"grid_class": spec["cls"], "leg": "transform"})
+
+        if src == tgt:
+            # not a model trace: the real code must return its argument
+            if res.shape != pts_in.shape or not np.array_equal(res, pts_in):
+                ctx.disagree("transform", case, "identity", res.tolist(), "same source and target")
+            continue
 
         def cont(resp, case=case, res=res, src=src, tgt=tgt, kout=kout):
             mres = expect_ok(ctx, resp, "transform", case)
@@ -772,27 +949,18 @@ def leg_transform(ctx, P, spec, rng):
                 r2 = [unq(x) for x in mres["r2"]]
                 rr = case["_radii"]
                 for a, b_ in zip(r2, rr):
-                    if abs(float(a) - b_ * b_) > 4 * TOL * max(float(a), 1e-300):
+                    if not (abs(float(a) - b_ * b_) <= 4 * TOL * max(float(a), 1e-300)):
                         ctx.disagree("transform", case, {"r2": float(a)}, {"hypot": b_}, "external hypot/norm")
                         return
             else:
                 mv = mres
-            mv = [x for row in unq_pts(mv) for x in row]
             ex = exact and not (sym and src == "cartesian" and tgt != "cartesian")
-            sc = cs if tgt != "cell" else max(1.0, float(np.max(np.abs(res)))) if res.size else 1.0
-            if not same_list(mv, res, sc, ex):
-                ctx.disagree("transform", case, first_diff(mv, res, sc, ex), {"result": res.tolist()},
-                             f"transform {src}->{tgt}")
+            fres = flat_pts(res, kout) if res.ndim >= 1 and res.shape[-1:] == (kout,) else np.zeros((0, kout))
+            dd = diff_pts(unq_pts(mv), fres, F.unit(tgt, fres), ex)
+            if dd is not None or res.shape != tuple(case["shape"][:-1]) + (kout,):
+                ctx.disagree("transform", case, dd, {"result": res.tolist()}, f"transform {src}->{tgt}")
 
         args = {"grid": mgrid(spec), "pts": qpts(flat_in)}
-        if src == tgt:
-            resp_id = ("ok", [[q(x) for x in row] for row in flat_in])
-            case_id = case
-            ctx.impl_traces += 1
-            if not np.array_equal(res, pts_in):
-                ctx.disagree("transform", case_id, "identity", res.tolist(), "same source and target")
-            _ = resp_id
-            continue
         if src == "cartesian":
             if sym:
                 rr = [float(x) for x in np.ravel(radial_value(spec, flat_in))]
@@ -806,52 +974,68 @@ def leg_transform(ctx, P, spec, rng):
             args.update(op="cell2grid" if tgt == "grid" else "cell2cart")
         P.add("c12.points", args, cont)
     # monitor: every cell centre has cell coordinate index + 1/2
-    ctx.monitor_evals += 1
-    for ax, n in enumerate(spec["shape"]):
+    for ax in centre_axes:
+        n = spec["shape"][ax]
+        case = {"leg": "transform", "sub": "centres", "grid": spec, "axis": ax}
+        _begin(case)
+        ctx.monitor_evals += 1
         ctr = np.zeros((n, k)) + np.array([c[0] for c in g.axes_coords])
         ctr[:, ax] = g.axes_coords[ax]
-        cc = np.array(g.transform(ctr, "grid", "cell"), dtype=float)[:, ax]
-        if np.max(np.abs(cc - (np.arange(n) + 0.5))) > 1e-9 * max(1.0, abs(float(spec_bounds(spec)[ax][0])) / float(g.discretization[ax])):
-            ctx.monitor_fail("transform", {"leg": "transform", "grid": spec, "axis": ax}, {"cell_coords": cc.tolist()},
+        cc = np.array(g.transform(ctr, "grid", "cell"), dtype=float)
+        # rounding of (x - lo)/dx: a few ulp of max(|lo|,|hi|)/dx, i.e. relative to the index range and |lo|/dx
+        tolc = 1e-11 * float(F.asc[ax] / F.dxs[ax])
+        if cc.shape != (n, k) or far(cc[:, ax], np.arange(n) + 0.5, tolc):
+            ctx.monitor_fail("transform", case, {"cell_coords": cc.tolist()},
                              "index + 1/2", f"{spec['cls']}: cell centres do not map to index+1/2",
                              key={"grid_class": spec["cls"], "leg": "transform"})
 
 
-def leg_contains(ctx, P, spec, rng):
+def leg_contains(ctx, P, spec, rng, force=None):
+    """`force`: a recorded case - exactly its coordinate system, points and use of the default"""
     g = build(spec)
-    k = len(spec["shape"])
+    F = Frame(spec)
+    k, lo, hi, dxs = F.k, F.lo, F.hi, F.dxs
     exact = exact_grid(spec)
-    sym = spec["cls"] not in ("unit", "cartesian")
-    m = rng.choice([2, 4, 8])
-    gp, cats = gen_points(rng, spec, m)
-    b = spec_bounds(spec)
-    lo = np.array([float(x[0]) for x in b])
-    dxs = np.array([float(x[1] - x[0]) / n for x, n in zip(b, spec["shape"])])
-    for coords in ["grid", "cell", "cartesian"]:
-        if coords == "grid":
-            pts = gp
-        elif coords == "cell":
-            pts = (gp - lo) / dxs
-            if exact:
-                pts = np.round(pts * 64) / 64
-        else:
-            gp2 = gp.copy()
-            if sym:
-                gp2[:, 0] = np.abs(gp2[:, 0])
-            pts = rotate_cart(rng, spec, to_cart_py(spec, gp2))
-        pts_in, shp = shape_batch(rng, pts)
+    sym = F.sym
+    if force is not None:
+        jobs = [(force["coords"], _arr(force["pts"], force.get("shape")), bool(force.get("default_coords")))]
+    else:
+        m = rng.choice([2, 4, 8])
+        gp, cats = gen_points(rng, spec, m)
+        jobs = []
+        for coords in ["grid", "cell", "cartesian"]:
+            if coords == "grid":
+                pts = gp
+            elif coords == "cell":
+                pts = (gp - lo) / dxs
+                if exact:
+                    pts = np.round(pts * 64) / 64
+            else:
+                gp2 = gp.copy()
+                if sym:
+                    gp2[:, 0] = np.abs(gp2[:, 0])
+                pts = rotate_cart(rng, spec, to_cart_py(spec, gp2))
+            # `coords="cartesian"` is the default of the API: exercised by leaving the argument out
+            jobs.append((coords, shape_batch(rng, pts)[0], coords == "cartesian" and rng.random() < 0.5))
+    for coords, pts_in, use_default in jobs:
+        shp = shape_name(pts_in)
         kin = pts_in.shape[-1]
         flat_in = flat_pts(pts_in, kin)
-        case = {"leg": "contains", "grid": spec, "coords": coords, "pts": pts_in.tolist()}
+        case = {"leg": "contains", "grid": spec, "coords": coords, "pts": pts_in.tolist(), "shape": list(pts_in.shape),
+                "default_coords": use_default}
+        _begin(case)
+        kw = {} if use_default else {"coords": coords}
         try:
-            res = np.asarray(g.contains_point(pts_in.copy(), coords=coords))
+            res = np.asarray(g.contains_point(pts_in.copy(), **kw))
         except Exception as e:  # noqa: BLE001
             ctx.count(case, nontrivial=False, leg="contains")
-            ctx.disagree("contains", case, "value", f"{type(e).__name__}: {e}", "real code raised")
+            raised(ctx, "contains", case, spec, e, f"grid.contains_point(points, {kw})")
             continue
         flat_res = [bool(x) for x in np.ravel(res)]
         ctx.count(case, nontrivial=(len(set(flat_res)) > 1 or len(flat_res) == 1), leg="contains")
-        ctx.hist("contains", f"{spec['cls']}/{coords}/{shp}")
+        ctx.hist("contains", f"{spec['cls']}/{coords}/{shp}{'/default' if use_default else ''}")
+        ctx.hist("batch-shape", f"contains/{shp}")
+        ctx.hist("default-args", f"contains/{'coords left out' if use_default else 'given'}")
         for x in flat_res:
             ctx.hist("contains-result", x)
         # monitor: a point whose grid coordinates lie within the bounds is contained, one that lies
@@ -861,12 +1045,11 @@ def leg_contains(ctx, P, spec, rng):
             gc = flat_in
         elif coords == "cell":
             gc = lo + flat_in * dxs
+        elif not sym:
+            gc = flat_in
         else:
-            gc = flat_in if not sym else None
-            if sym:
-                rr = radial_value(spec, flat_in)
-                gc = np.stack([rr] + ([flat_in[:, 2]] if spec["cls"] == "cylindrical" else []), -1)
-        hi = np.array([float(x[1]) for x in b])
+            rr = radial_value(spec, flat_in)
+            gc = np.stack([rr] + ([flat_in[:, 2]] if spec["cls"] == "cylindrical" else []), -1)
         marg = 1e-9 * np.maximum(hi - lo, np.maximum(np.abs(lo), np.abs(hi)))
         if coords == "cell":
             # no arithmetic between the point and the test: faces count as inside, exactly
@@ -877,6 +1060,12 @@ def leg_contains(ctx, P, spec, rng):
             mm = 0.0 * marg if (exact and coords == "grid") else marg
             inside = np.all((gc >= lo + mm) & (gc <= hi - mm), axis=-1)
             outside = np.any((gc < lo - marg) | (gc > hi + marg), axis=-1)
+        if res.dtype != np.bool_ or res.shape != pts_in.shape[:-1]:
+            ctx.monitor_fail("contains", case, {"shape": list(res.shape), "dtype": str(res.dtype)},
+                             {"shape": list(pts_in.shape[:-1]), "dtype": "bool"},
+                             f"{spec['cls']}: contains_point({coords}) does not return one bool per point",
+                             key={"grid_class": spec["cls"], "leg": "contains"})
+            continue
         for i, r in enumerate(flat_res):
             if (inside[i] and not r) or (outside[i] and r):
                 ctx.monitor_fail("contains", case, {"index": i, "contains": r, "grid_coords": gc[i].tolist()},
@@ -914,53 +1103,66 @@ def leg_contains(ctx, P, spec, rng):
         P.add("c12.points", args, cont)
 
 
-def leg_normalize(ctx, P, spec, rng):
+def leg_normalize(ctx, P, spec, rng, force=None):
+    """`force`: a recorded case - exactly its points, reflect flag, scalar form and use of the default"""
     g = build(spec)
-    k = len(spec["shape"])
+    F = Frame(spec)
+    k, lo, hi, L = F.k, F.lo, F.hi, F.L
     exact = spec["mode"] == "dyadic"       # no division by N involved
-    b = spec_bounds(spec)
-    lo = np.array([float(x[0]) for x in b])
-    hi = np.array([float(x[1]) for x in b])
-    L = hi - lo
     per = np.array([bool(p) for p in spec["periodic"]])
-    for reflect in (False, True):
-        m = rng.choice([1, 2, 4, 8])
-        gp, cats = gen_points(rng, spec, m)
-        pts_in, shp = shape_batch(rng, gp)
-        scalar = False
-        if k == 1 and shp == "single" and rng.random() < 0.5:
-            pts_arg, scalar = float(pts_in[0]), True
-        else:
-            pts_arg = pts_in.copy()
+    if force is not None:
+        jobs = [(bool(force["reflect"]), _arr(force["pts"], force.get("shape")), bool(force.get("scalar")),
+                 bool(force.get("default_reflect")), None)]
+    else:
+        jobs = []
+        for reflect in (False, True):
+            m = rng.choice([1, 2, 4, 8])
+            gp, cats = gen_points(rng, spec, m)
+            pts_in, shp = shape_batch(rng, gp)
+            scalar = bool(k == 1 and shp == "single" and rng.random() < 0.5)
+            # `reflect=False` is the default of the API: exercised by leaving the argument out
+            jobs.append((reflect, pts_in, scalar, (not reflect) and rng.random() < 0.5, cats))
+    for reflect, pts_in, scalar, use_default, cats in jobs:
+        shp = shape_name(pts_in)
+        pts_arg = float(pts_in[0]) if scalar else pts_in.copy()
         flat_in = flat_pts(pts_in, k)
-        case = {"leg": "normalize", "grid": spec, "reflect": reflect, "pts": pts_in.tolist(), "scalar": scalar}
+        case = {"leg": "normalize", "grid": spec, "reflect": reflect, "pts": pts_in.tolist(), "shape": list(pts_in.shape),
+                "scalar": scalar, "default_reflect": use_default}
+        _begin(case)
+        kw = {} if use_default else {"reflect": reflect}
         try:
-            res = np.array(g.normalize_point(pts_arg, reflect=reflect), dtype=float)
+            res = np.array(g.normalize_point(pts_arg, **kw), dtype=float)
         except Exception as e:  # noqa: BLE001
             ctx.count(case, nontrivial=False, leg="normalize")
-            ctx.disagree("normalize", case, "value", f"{type(e).__name__}: {e}", "real code raised")
+            raised(ctx, "normalize", case, spec, e, f"grid.normalize_point(points, {kw})")
             continue
-        flat_res = flat_pts(res, k)
-        moved = bool(np.any(flat_res != flat_in))
+        ok_shape = res.size == flat_in.size and (res.shape == np.shape(pts_arg) or (scalar and res.shape in ((), (1,))))
+        flat_res = flat_pts(res, k) if res.size == flat_in.size else res
+        moved = bool(ok_shape and np.any(flat_res != flat_in))
         ctx.count(case, nontrivial=moved, leg="normalize")
-        ctx.hist("normalize", f"{spec['cls']}/reflect={reflect}/{shp}{'/scalar' if scalar else ''}")
+        ctx.hist("normalize", f"{spec['cls']}/reflect={reflect}/{shp}{'/scalar' if scalar else ''}{'/default' if use_default else ''}")
+        ctx.hist("batch-shape", f"normalize/{'scalar' if scalar else shp}")
+        ctx.hist("default-args", f"normalize/{'reflect left out' if use_default else 'given'}")
         for ax in range(k):
-            for c in cats[ax][: len(flat_in)]:
+            for c in (cats[ax][: len(flat_in)] if cats else []):
                 ctx.hist("point-category", c)
         # monitor --------------------------------------------------------------------------------
         ctx.monitor_evals += 1
         bad = None
-        tolv = 1e-9 * np.maximum(L, np.maximum(np.abs(lo), np.abs(hi)))
-        if flat_res.shape != flat_in.shape:
+        if not ok_shape:
             bad = f"result shape {res.shape} for input {np.shape(pts_arg)}"
         elif not np.all(np.isfinite(flat_res)):
             bad = f"non-finite result {flat_res.tolist()} for finite points"
         else:
-            again = flat_pts(np.array(g.normalize_point(res.copy().reshape(np.shape(pts_arg)) if not scalar else float(res),
-                                                        reflect=reflect), dtype=float), k)
+            again = np.array(g.normalize_point(res.copy().reshape(np.shape(pts_arg)) if not scalar else float(np.ravel(res)[0]),
+                                               **kw), dtype=float)
+            if again.size != flat_in.size:
+                bad = f"second normalisation returns shape {again.shape}"
+                again = flat_res
+            again = flat_pts(again, k)
             for i in range(len(flat_in)):
                 for ax in range(k):
-                    x, y, y2 = flat_in[i, ax], flat_res[i, ax], again[i, ax]
+                    x, y, y2 = float(flat_in[i, ax]), float(flat_res[i, ax]), float(again[i, ax])
                     big = max(abs(x), abs(lo[ax]), abs(hi[ax]), L[ax])
                     t = 4e-16 * big * 8 + 1e-300
                     if per[ax] or reflect:
@@ -968,21 +1170,23 @@ def leg_normalize(ctx, P, spec, rng):
                             bad = f"point {i} axis {ax}: {x!r} -> {y!r} outside [{lo[ax]!r}, {hi[ax]!r}]"
                         if exact and per[ax] and not (lo[ax] <= y < hi[ax]):
                             bad = f"point {i} axis {ax}: {x!r} -> {y!r} not in [lo, hi)"
-                        if abs(y2 - y) > t and abs(abs(y2 - y) - L[ax]) > t:
+                        if not (abs(y2 - y) <= t) and not (abs(abs(y2 - y) - L[ax]) <= t):
                             bad = f"point {i} axis {ax}: not idempotent {y!r} -> {y2!r}"
                         if exact and y2 != y:
                             bad = f"point {i} axis {ax}: not idempotent {y!r} -> {y2!r}"
                     if per[ax]:
                         kk = (y - x) / L[ax]
-                        if abs(kk - round(kk)) > 1e-9 * max(1.0, abs(kk)) + t / L[ax]:
+                        if not (abs(kk - round(kk)) <= 1e-9 * max(1.0, abs(kk)) + t / L[ax]):
                             bad = f"point {i} axis {ax}: moved by {kk!r} periods"
+                        if lo[ax] + t < x < hi[ax] - t and not (abs(y - x) <= t):
+                            bad = f"point {i} axis {ax}: inside point {x!r} moved to {y!r}"
                     elif reflect:
                         k1 = (y - x) / (2 * L[ax])
                         k2 = (y + x - 2 * lo[ax]) / (2 * L[ax])
                         tt = 1e-9 * max(1.0, abs(k1)) + t / L[ax]
-                        if abs(k1 - round(k1)) > tt and abs(k2 - round(k2)) > tt:
+                        if not (abs(k1 - round(k1)) <= tt) and not (abs(k2 - round(k2)) <= tt):
                             bad = f"point {i} axis {ax}: {x!r} -> {y!r} is neither a shift by 2kL nor a reflection"
-                        if lo[ax] <= x <= hi[ax] and abs(y - x) > t:
+                        if lo[ax] <= x <= hi[ax] and not (abs(y - x) <= t):
                             bad = f"point {i} axis {ax}: inside point {x!r} moved to {y!r}"
                     elif y != x:
                         bad = f"point {i} axis {ax}: non-periodic coordinate changed without reflect"
@@ -991,7 +1195,8 @@ def leg_normalize(ctx, P, spec, rng):
                              "in domain, idempotent, moved by whole periods / reflections",
                              f"{spec['cls']}: normalize_point(reflect={reflect})",
                              key={"grid_class": spec["cls"], "leg": "normalize"})
-        _ = tolv
+        if not ok_shape:
+            continue
 
         def cont(resp, case=case, flat_res=flat_res, flat_in=flat_in):
             mres = expect_ok(ctx, resp, "normalize", case)
@@ -1033,24 +1238,37 @@ def cart_periods(spec):
     return [None] * dim_of(spec)
 
 
+def _as_points(p, int_pts, container="array"):
+    """recorded points of a distance case -> the argument handed to the real code"""
+    if not int_pts:
+        return np.array(p, dtype=float)
+    a = np.array(p, dtype=int)
+    return a.tolist() if container == "list" else a
+
+
 def leg_distance(ctx, P, spec, rng, force=None):
+    """`force`: a recorded case (dict with coords, p1, p2, int_points, shift, ...) - exactly its
+    points, coordinate system, container types and period shift"""
     g = build(spec)
-    k = len(spec["shape"])
-    d = dim_of(spec)
-    sym = spec["cls"] not in ("unit", "cartesian")
+    F = Frame(spec)
+    k, d, sym, lo, dxs = F.k, F.d, F.sym, F.lo, F.dxs
     exact = spec["mode"] == "dyadic" and not sym
-    cs = coord_scale(spec)
     periods = cart_periods(spec)
     b = spec_bounds(spec)
-    lo = np.array([float(x[0]) for x in b])
-    dxs = np.array([float(x[1] - x[0]) / n for x, n in zip(b, spec["shape"])])
     jobs = []
     if force is not None:
-        # a given case (regression stream, replay): (coords, p1, p2, int_points)
-        coords, a1, a2, int_pts = force
-        if not int_pts:
-            a1, a2 = np.array(a1, dtype=float), np.array(a2, dtype=float)
-        jobs.append((coords, a1, a2, int_pts, "forced", exact and (coords != "cell" or exact_grid(spec))))
+        int_pts = bool(force.get("int_points"))
+        cont_ = force.get("int_container", "array")
+        shp_rec = force.get("shape")
+        a1, a2 = _as_points(force["p1"], int_pts, cont_), _as_points(force["p2"], int_pts, cont_)
+        if not int_pts and shp_rec is not None:
+            a1, a2 = a1.reshape(tuple(shp_rec)), a2.reshape(tuple(shp_rec))
+        shift = force.get("shift")
+        if shift is None:
+            # regression stream: a fixed shift (recorded in the case below)
+            shift = [(-1 if j % 2 else 2) if P_ is not None else None for j, P_ in enumerate(periods)]
+        jobs.append((force["coords"], a1, a2, int_pts, cont_, "forced", exact and (force["coords"] != "cell" or exact_grid(spec)),
+                     bool(force.get("default_coords")), shift))
     else:
         m = rng.choice([1, 2, 4, 6])
         g1, _ = gen_points(rng, spec, m)
@@ -1074,34 +1292,45 @@ def leg_distance(ctx, P, spec, rng, force=None):
                 p1, p2 = rotate_cart(rng, spec, to_cart_py(spec, g1)), rotate_cart(rng, spec, to_cart_py(spec, g2))
             ex = exact and (coords != "cell" or exact_grid(spec))
             int_pts = False
-            if not sym and coords != "cell" and rng.random() < 0.12:
+            if not sym and coords != "cell" and rng.random() < 0.12 and max(absmax(p1), absmax(p2)) < 1e15:
                 # integer-typed points (python ints / int arrays are legitimate point coordinates)
                 p1, p2 = np.round(p1).astype(int), np.round(p2).astype(int)
                 int_pts = True
             shp = "batch"
             a1, a2 = p1.copy(), p2.copy()
-            if rng.random() < 0.3:
+            r = rng.random()
+            if r < 0.3:
                 a1, a2, shp = p1[0].copy(), p2[0].copy(), "single"
-            elif m >= 4 and rng.random() < 0.3:
+            elif m >= 4 and r < 0.55:
                 a1, a2, shp = p1.reshape(2, m // 2, -1).copy(), p2.reshape(2, m // 2, -1).copy(), "batch-2d"
+            elif 0.55 <= r < 0.6 and not int_pts:
+                a1, a2, shp = np.zeros((0, p1.shape[-1])), np.zeros((0, p1.shape[-1])), "empty"
+            cont_ = "array"
             if int_pts and rng.random() < 0.5:
-                a1, a2 = a1.tolist(), a2.tolist()
-            jobs.append((coords, a1, a2, int_pts, shp, ex))
-    for coords, a1, a2, int_pts, shp, ex in jobs:
+                a1, a2, cont_ = a1.tolist(), a2.tolist(), "list"
+            shift = [rng.choice([-2, -1, 1, 3]) if P_ is not None else None for P_ in periods]
+            # `coords="grid"` is the default of difference_vector / distance: exercised by leaving it out
+            jobs.append((coords, a1, a2, int_pts, cont_, shp, ex, coords == "grid" and rng.random() < 0.5, shift))
+    for coords, a1, a2, int_pts, cont_, shp, ex, use_default, shift in jobs:
         kin = np.shape(a1)[-1]
         f1, f2 = flat_pts(a1, kin), flat_pts(a2, kin)
         case = {"leg": "distance", "grid": spec, "coords": coords, "p1": np.asarray(a1).tolist(),
-                "p2": np.asarray(a2).tolist(), "int_points": int_pts}
+                "p2": np.asarray(a2).tolist(), "shape": list(np.shape(a1)), "int_points": int_pts,
+                "int_container": cont_, "default_coords": use_default, "shift": shift}
+        _begin(case)
+        kw = {} if use_default else {"coords": coords}
         try:
-            dv = np.array(g.difference_vector(_cp(a1), _cp(a2), coords=coords), dtype=float)
-            dist = np.array(g.distance(_cp(a1), _cp(a2), coords=coords), dtype=float)
-            dist_rev = np.array(g.distance(_cp(a2), _cp(a1), coords=coords), dtype=float)
+            dv = np.array(g.difference_vector(_cp(a1), _cp(a2), **kw), dtype=float)
+            dv_rev = np.array(g.difference_vector(_cp(a2), _cp(a1), **kw), dtype=float)
+            dist = np.array(g.distance(_cp(a1), _cp(a2), **kw), dtype=float)
+            dist_rev = np.array(g.distance(_cp(a2), _cp(a1), **kw), dtype=float)
+            # the same points as floats: tells a failure that is specific to integer-typed points
+            dv_float = np.array(g.difference_vector(np.array(a1, dtype=float), np.array(a2, dtype=float), **kw),
+                                dtype=float) if int_pts else None
         except Exception as e:  # noqa: BLE001
             ctx.count(case, nontrivial=False, leg="distance")
-            ctx.disagree("distance", case, "value", f"{type(e).__name__}: {e}", "real code raised")
+            raised(ctx, "distance", case, spec, e, f"grid.difference_vector / distance(p1, p2, {kw})")
             continue
-        fdv = flat_pts(dv, d)
-        fdist = np.ravel(dist)
         # Cartesian positions (independent of the code): for the monitors
         if coords == "cartesian":
             x1, x2 = f1, f2
@@ -1112,52 +1341,90 @@ def leg_distance(ctx, P, spec, rng, force=None):
         raw = x2 - x1
         wrapped = any(P_ is not None and np.any(np.abs(raw[:, j]) > P_ / 2) for j, P_ in enumerate(periods))
         ctx.count(case, nontrivial=bool(np.any(raw != 0)), leg="distance")
-        ctx.hist("distance", f"{spec['cls']}/{coords}/{shp}{'/int' if int_pts else ''}")
+        ctx.hist("distance", f"{spec['cls']}/{coords}/{shp}{'/int' if int_pts else ''}{'/default' if use_default else ''}")
+        ctx.hist("batch-shape", f"distance/{shp}{'/int-' + cont_ if int_pts else ''}")
+        ctx.hist("default-args", f"distance/{'coords left out' if use_default else 'given'}")
         ctx.hist("distance-branch", "wrapped" if wrapped else ("periodic-no-wrap" if any(periods) else "no-periodic-axis"))
         # monitor --------------------------------------------------------------------------------
         ctx.monitor_evals += 1
-        bad = None
         key = {"grid_class": spec["cls"], "leg": "distance"}
-        big = max(cs, float(np.max(np.abs(x1))) if x1.size else 0, float(np.max(np.abs(x2))) if x2.size else 0)
-        t = 1e-11 * big
-        if fdv.shape != raw.shape or fdist.shape != (len(raw),):
-            bad = f"shapes: difference {dv.shape}, distance {dist.shape} for points {np.shape(a1)}"
-        elif not (np.all(np.isfinite(fdv)) and np.all(np.isfinite(fdist)) and np.all(np.isfinite(dist_rev))):
-            bad = f"non-finite difference vector / distance {fdv.tolist()} {fdist.tolist()} for finite points"
-        else:
-            if np.max(np.abs(fdist - np.ravel(dist_rev))) > t:
-                bad = f"not symmetric: d(p1,p2)={fdist.tolist()} d(p2,p1)={np.ravel(dist_rev).tolist()}"
-            if np.max(np.abs(fdist - np.sqrt(np.sum(fdv ** 2, axis=-1)))) > t:
-                bad = "distance is not the norm of the difference vector"
+        # one tolerance PER Cartesian component: the scale of that component's axis and of the points'
+        # coordinates along it (a grid mixes scales; a small axis must not inherit a large tolerance)
+        bigj = np.maximum(cart_point_scales(spec, x1), cart_point_scales(spec, x2))
+        tj = 1e-11 * bigj
+        td = float(np.sqrt(np.sum(tj ** 2)))          # a distance mixes the components
+
+        def comp_checks(fdv_):
+            """the per-component clauses on a difference vector; first problem or None"""
             for j, P_ in enumerate(periods):
                 if P_ is None:
-                    if np.max(np.abs(fdv[:, j] - raw[:, j])) > t:
-                        bad = f"component {j} is not periodic but {raw[:, j].tolist()} became {fdv[:, j].tolist()}"
+                    if far(fdv_[:, j], raw[:, j], tj[j]):
+                        return f"component {j} is not periodic but {raw[:, j].tolist()} became {fdv_[:, j].tolist()}"
                 else:
-                    if np.max(np.abs(fdv[:, j])) > P_ / 2 + t:
-                        bad = f"component {j}: |difference| {np.abs(fdv[:, j]).max()!r} exceeds half the period {P_ / 2!r}"
-                    kk = (fdv[:, j] - raw[:, j]) / P_
-                    if np.max(np.abs(kk - np.round(kk))) > 1e-9 * max(1.0, float(np.max(np.abs(kk)))) + t / P_:
-                        bad = f"component {j}: difference {fdv[:, j].tolist()} is not raw {raw[:, j].tolist()} modulo the period {P_!r}"
+                    if not bool(np.all(np.abs(fdv_[:, j]) <= P_ / 2 + tj[j])):
+                        return f"component {j}: |difference| {absmax(fdv_[:, j])!r} exceeds half the period {P_ / 2!r}"
+                    kk = (fdv_[:, j] - raw[:, j]) / P_
+                    if not bool(np.all(np.abs(kk - np.round(kk)) <= 1e-9 * np.maximum(1.0, np.abs(kk)) + tj[j] / P_)):
+                        return f"component {j}: difference {fdv_[:, j].tolist()} is not raw {raw[:, j].tolist()} modulo the period {P_!r}"
+            return None
+
+        def same_mod_tie(u, v, j, tol):
+            """u == v componentwise, or both at the half-period tie (|u| = |v| = P/2)"""
+            P_ = periods[j]
+            ok = np.abs(u - v) <= tol
+            if P_ is not None:
+                ok = ok | ((np.abs(np.abs(u) - P_ / 2) <= tol) & (np.abs(np.abs(v) - P_ / 2) <= tol))
+            return bool(np.all(ok))
+
+        bad = None
+        int_specific = False
+        pshape = np.shape(a1)[:-1]
+        if dv.shape != pshape + (d,) or dv_rev.shape != dv.shape or dist.shape != pshape or dist_rev.shape != pshape:
+            bad = f"shapes: difference {dv.shape}, distance {dist.shape} for points {np.shape(a1)}"
+            fdv, fdist = np.zeros((0, d)), np.zeros(0)
+        else:
+            fdv, fdv_rev = flat_pts(dv, d), flat_pts(dv_rev, d)
+            fdist, fdist_rev = np.ravel(dist), np.ravel(dist_rev)
+            if not (np.all(np.isfinite(fdv)) and np.all(np.isfinite(fdv_rev)) and np.all(np.isfinite(fdist))
+                    and np.all(np.isfinite(fdist_rev))):
+                bad = f"non-finite difference vector / distance {fdv.tolist()} {fdist.tolist()} for finite points"
+            else:
+                if far(fdist, fdist_rev, td):
+                    bad = f"not symmetric: d(p1,p2)={fdist.tolist()} d(p2,p1)={fdist_rev.tolist()}"
+                for j in range(d):
+                    if not same_mod_tie(fdv_rev[:, j], -fdv[:, j], j, 2 * tj[j]):
+                        bad = (f"component {j}: difference_vector(p2,p1)={fdv_rev[:, j].tolist()} is not "
+                               f"-difference_vector(p1,p2)={(-fdv[:, j]).tolist()}")
+                if far(fdist, np.sqrt(np.sum(fdv ** 2, axis=-1)), td):
+                    bad = "distance is not the norm of the difference vector"
+                cbad = comp_checks(fdv)
+                if cbad is not None:
+                    bad = cbad
+                    if int_pts and dv_float is not None and dv_float.shape == dv.shape \
+                            and comp_checks(flat_pts(dv_float, d)) is None:
+                        int_specific = True      # the same points as floats are handled correctly
             if bad is None and any(P_ is not None for P_ in periods) and not int_pts:
-                # invariance under period shifts of either point
-                shift = np.zeros(d)
-                for j, P_ in enumerate(periods):
-                    if P_ is not None:
-                        shift[j] = P_ * rng.choice([-2, -1, 1, 3])
+                # invariance under period shifts of either point (the recorded multiples of the periods)
+                shiftv = np.array([P_ * s_ if P_ is not None else 0.0 for P_, s_ in zip(periods, shift)])
                 try:
                     if coords == "cartesian":
-                        s2 = f2 + shift
+                        sg = shiftv
                     else:
                         sg = np.zeros(k)
                         for ax in range(k):
                             if spec["periodic"][ax]:
                                 j = ax if not sym else 2
-                                sg[ax] = shift[j] if coords == "grid" else shift[j] / dxs[ax]
-                        s2 = f2 + sg
-                    dsh = np.ravel(np.array(g.distance(f1.copy(), s2, coords=coords), dtype=float))
-                    if np.max(np.abs(dsh - fdist)) > 1e-9 * max(big, float(np.max(np.abs(shift)))):
-                        bad = f"not invariant under a period shift of p2 by {shift.tolist()}: {fdist.tolist()} vs {dsh.tolist()}"
+                                sg[ax] = shiftv[j] if coords == "grid" else shiftv[j] / dxs[ax]
+                    for which, q1, q2 in (("p2", f1.copy(), f2 + sg), ("p1", f1 + sg, f2.copy())):
+                        dvs = flat_pts(np.array(g.difference_vector(q1, q2, **kw), dtype=float), d)
+                        dss = np.ravel(np.array(g.distance(q1, q2, **kw), dtype=float))
+                        tsj = 1e-11 * np.maximum(bigj, bigj + np.abs(shiftv))
+                        for j in range(d):
+                            if dvs.shape != fdv.shape or not same_mod_tie(dvs[:, j], fdv[:, j], j, 2 * tsj[j]):
+                                bad = (f"not invariant under a period shift of {which} by {shiftv.tolist()}: component {j} "
+                                       f"{fdv[:, j].tolist()} vs {dvs[:, j].tolist() if dvs.shape == fdv.shape else dvs.shape}")
+                        if bad is None and far(dss, fdist, float(np.sqrt(np.sum(tsj ** 2))) * 2):
+                            bad = f"distance not invariant under a period shift of {which} by {shiftv.tolist()}: {fdist.tolist()} vs {dss.tolist()}"
                 except Exception as e:  # noqa: BLE001
                     bad = f"distance of shifted point raised {type(e).__name__}: {e}"
         # the package's own period images: every mirror point along a periodic axis is at distance 0
@@ -1166,29 +1433,40 @@ def leg_distance(ctx, P, spec, rng, force=None):
             for row in x1[:2]:
                 try:
                     mps = [np.array(mp, dtype=float) for mp in g.iter_mirror_points(row.copy(), with_self=False, only_periodic=True)]
+                    dvm = [np.ravel(np.array(g.difference_vector(row.copy(), mp, coords="cartesian"), dtype=float)) for mp in mps]
                     dms = [float(g.distance(row.copy(), mp, coords="cartesian")) for mp in mps]
                 except Exception as e:  # noqa: BLE001
-                    mps, dms = [], []
+                    mps, dvm, dms = [], [], []
                     bad = f"iter_mirror_points raised {type(e).__name__}: {e}"
+                    key = {"call_site": f"{type(g).__name__}.iter_mirror_points", "symptom": f"raised-{type(e).__name__}"}
+                    break
                 ctx.hist("mirror-points", len(mps))
-                psc = max(big, max((P_ for P_ in periods if P_ is not None), default=0.0))
-                if bad is None and (len(mps) != n_expected or any(dm > 1e-9 * psc for dm in dms)):
-                    bad = (f"mirror points of {row.tolist()} along the periodic axes: {[m.tolist() for m in mps]} at distances {dms} "
+                tm = 1e-11 * np.array([max(bj, 2 * P_) if P_ is not None else bj for bj, P_ in zip(bigj, periods)])
+                wrong = len(mps) != n_expected or any(v.shape != (d,) or not bool(np.all(np.abs(v) <= tm)) for v in dvm) \
+                    or any(not (dm <= float(np.sqrt(np.sum(tm ** 2)))) for dm in dms)
+                if wrong:
+                    bad = (f"mirror points of {row.tolist()} along the periodic axes: {[m_.tolist() for m_ in mps]} at distances {dms} "
                            f"(expected {n_expected} points at distance 0)")
-                if bad is not None:
-                    key = {"call_site": f"{type(g).__name__}.iter_mirror_points",
-                           "symptom": "mirror-point-shifts-x-instead-of-z" if spec["cls"] == "cylindrical" else "mirror-point-not-a-period-image"}
+                    # the key names the SYMPTOM that is observed, not the input type
+                    moved = [np.nonzero(np.abs(mp - row) > tm)[0].tolist() if mp.shape == row.shape else None for mp in mps]
+                    if spec["cls"] == "cylindrical" and len(mps) == n_expected and all(mv == [0] for mv in moved):
+                        sympt = "mirror-point-shifts-x-instead-of-z"
+                    else:
+                        sympt = "mirror-point-not-a-period-image"
+                    key = {"call_site": f"{type(g).__name__}.iter_mirror_points", "symptom": sympt}
                     break
         if bad:
-            if int_pts:
+            if int_specific:
                 key = dict(FINDING_INT)
             ctx.monitor_fail("distance", case, {"difference_vector": dv.tolist(), "distance": dist.tolist(), "problem": bad},
                              "symmetric, <= half a period per periodic Cartesian component, raw difference modulo the period of "
                              "the matching grid axis, invariant under period shifts",
-                             f"{spec['cls']}: distance/difference_vector" + (" (integer-typed points)" if int_pts else ""),
+                             f"{spec['cls']}: distance/difference_vector" + (" (integer-typed points)" if int_specific else ""),
                              key=key)
+        if fdv.shape != raw.shape:
+            continue
 
-        def cont(resp, case=case, fdv=fdv, fdist=fdist, ex=ex, big=big, int_pts=int_pts):
+        def cont(resp, case=case, fdv=fdv, fdist=fdist, ex=ex, bigj=bigj, td=td, int_pts=int_pts, dv_float=dv_float):
             mres = expect_ok(ctx, resp, "distance", case)
             if mres is None:
                 return
@@ -1196,21 +1474,27 @@ def leg_distance(ctx, P, spec, rng, force=None):
             md = unq_pts(mres["diff"])
             for i, (mrow, irow) in enumerate(zip(md, fdv)):
                 for j, (a, y) in enumerate(zip(mrow, irow)):
-                    if same(a, y, big, ex):
+                    if same(a, y, bigj[j], ex):
                         continue
                     P_ = periods[j]
-                    if not ex and P_ is not None and abs(abs(float(a)) - P_ / 2) <= 1e-9 * big \
-                            and abs(abs(float(a) - float(y)) - P_) <= 1e-9 * big:
+                    if not ex and P_ is not None and abs(abs(float(a)) - P_ / 2) <= 1e-9 * bigj[j] \
+                            and abs(abs(float(a) - float(y)) - P_) <= 1e-9 * bigj[j]:
                         ctx.hist("rounding-at-seam", "distance-half-period")
                         continue
-                    kw = {"key": dict(FINDING_INT)} if int_pts else {}
+                    # the int-dtype finding is attached only if the same points as floats agree with the model
+                    kw_ = {}
+                    if int_pts and dv_float is not None and same(a, flat_pts(dv_float, d)[i, j], bigj[j], ex):
+                        kw_ = {"key": dict(FINDING_INT)}
                     dd = {"leg": "distance", "case": case, "model": {"point": i, "component": j, "value": float(a)},
-                          "impl": {"point": i, "component": j, "value": float(y)}, "note": "difference_vector", **kw}
+                          "impl": {"point": i, "component": j, "value": float(y)}, "note": "difference_vector", **kw_}
                     ctx.disagreements.append(dd)
                     return
             d2 = [unq(x) for x in mres["dist2"]]
+            if len(d2) != len(fdist) or len(md) != len(fdv):
+                ctx.disagree("distance", case, {"len": len(d2)}, {"len": len(fdist)}, "length")
+                return
             for a, y in zip(d2, fdist):
-                if abs(math.sqrt(float(a)) - float(y)) > 1e-11 * big:
+                if not (abs(math.sqrt(float(a)) - float(y)) <= td):
                     # a half-period tie resolved the other way does not change the distance
                     ctx.disagree("distance", case, {"sqrt(dist2)": math.sqrt(float(a))}, {"distance": float(y)}, "distance")
                     return
@@ -1223,30 +1507,52 @@ def _cp(a):
     return a.copy() if isinstance(a, np.ndarray) else [list(r) if isinstance(r, list) else r for r in a]
 
 
-def leg_random(ctx, P, spec, rng):
+def leg_random(ctx, P, spec, rng, force=None):
+    """`force`: a recorded case - exactly its seed, boundary distance, avoid_center, coordinate system"""
     g = build(spec)
-    k = len(spec["shape"])
-    d = dim_of(spec)
-    sym = spec["cls"] not in ("unit", "cartesian")
+    F = Frame(spec)
+    k, d, sym = F.k, F.d, F.sym
     b = spec_bounds(spec)
-    cs = coord_scale(spec)
+    asc = F.asc
     minL = min(float(hi - lo) for lo, hi in b)
-    for coords in ["grid", "cell", "cartesian"]:
-        bd = rng.choice([0, 0, 0.1 * minL, 0.25 * minL, 0.45 * minL])
-        avoid = rng.random() < 0.5
-        seed = rng.randrange(2 ** 32)
+    if force is not None:
+        jobs = [(force["coords"], force["boundary_distance"], bool(force["avoid_center"]), int(force["seed"]),
+                 list(force.get("defaults", [])))]
+    else:
+        jobs = []
+        for coords in ["grid", "cell", "cartesian"]:
+            bd = rng.choice([0, 0, 0.1 * minL, 0.25 * minL, 0.45 * minL])
+            avoid = rng.random() < 0.5
+            seed = rng.randrange(2 ** 32)
+            # arguments equal to the API defaults (coords="cartesian", boundary_distance=0,
+            # avoid_center=False) are left out half of the time
+            defaults = []
+            if coords == "cartesian" and rng.random() < 0.5:
+                defaults.append("coords")
+            if bd == 0 and rng.random() < 0.5:
+                defaults.append("boundary_distance")
+            if sym and not avoid and rng.random() < 0.5:
+                defaults.append("avoid_center")
+            jobs.append((coords, bd, avoid, seed, defaults))
+    for coords, bd, avoid, seed, defaults in jobs:
         kw = {"boundary_distance": bd, "coords": coords, "rng": np.random.default_rng(seed)}
         if sym:
             kw["avoid_center"] = avoid
-        case = {"leg": "random", "grid": spec, "coords": coords, "boundary_distance": bd, "avoid_center": avoid, "seed": seed}
+        for name in defaults:
+            kw.pop(name, None)
+        case = {"leg": "random", "grid": spec, "coords": coords, "boundary_distance": bd, "avoid_center": avoid, "seed": seed,
+                "defaults": defaults}
+        _begin(case)
         ctx.count(case, nontrivial=True, leg="random")
-        ctx.hist("random", f"{spec['cls']}/{coords}/bd={'0' if bd == 0 else 'pos'}")
+        ctx.hist("random", f"{spec['cls']}/{coords}/bd={'0' if bd == 0 else 'pos'}{'/defaults' if defaults else ''}")
+        ctx.hist("default-args", f"random/left out: {','.join(defaults) if defaults else 'nothing'}")
+        ckw = {} if "coords" in defaults else {"coords": coords}
         try:
             pt = np.array(g.get_random_point(**kw), dtype=float)
-            inside = bool(g.contains_point(pt, coords=coords))
+            inside = bool(g.contains_point(pt, **ckw))
             asgrid = np.atleast_1d(np.array(g.transform(pt, coords, "grid"), dtype=float))
         except Exception as e:  # noqa: BLE001
-            ctx.disagree("random", case, "value", f"{type(e).__name__}: {e}", "real code raised")
+            raised(ctx, "random", case, spec, e, f"grid.get_random_point({ {a: v for a, v in kw.items() if a != 'rng'} })")
             continue
         ctx.monitor_evals += 1
         bad = None
@@ -1254,14 +1560,19 @@ def leg_random(ctx, P, spec, rng):
             bad = f"generated point {pt.tolist()} ({coords}) is not contained"
         if not (np.all(np.isfinite(pt)) and np.all(np.isfinite(asgrid))):
             bad = f"non-finite random point {pt.tolist()}"
-        for ax, (lo, hi) in enumerate(b):
-            lo_, hi_ = float(lo), float(hi)
-            lo_b = lo_ + bd if (not sym or ax == 1 or avoid) else lo_
-            if not (lo_b - 1e-9 * cs <= asgrid[ax] <= hi_ - bd + 1e-9 * cs):
-                bad = f"grid coordinate {ax} = {asgrid[ax]!r} violates the boundary distance {bd!r} in [{lo_!r}, {hi_!r}]"
+        if asgrid.shape != (k,) or pt.shape != ((d,) if coords == "cartesian" else (k,)):
+            bad = f"random point of shape {pt.shape} ({coords})"
+        else:
+            for ax, (lo, hi) in enumerate(b):
+                lo_, hi_ = float(lo), float(hi)
+                lo_b = lo_ + bd if (not sym or ax == 1 or avoid) else lo_
+                if not (lo_b - 1e-9 * asc[ax] <= asgrid[ax] <= hi_ - bd + 1e-9 * asc[ax]):
+                    bad = f"grid coordinate {ax} = {float(asgrid[ax])!r} violates the boundary distance {bd!r} in [{lo_!r}, {hi_!r}]"
         if bad:
             ctx.monitor_fail("random", case, {"point": pt.tolist(), "problem": bad}, "contained, at the requested distance",
                              f"{spec['cls']}: get_random_point", key={"grid_class": spec["cls"], "leg": "random"})
+            if asgrid.shape != (k,):
+                continue
         twin = np.random.default_rng(seed)
         if not sym:
             us = [float(x) for x in twin.random(d)]
@@ -1277,14 +1588,14 @@ def leg_random(ctx, P, spec, rng):
             ctx.impl_traces += 1
             mv = [unq(x) for x in mres[0]]
             if not sym:
-                if not same_list(mv, asgrid, cs, False, 1e-11):
+                if len(mv) != len(asgrid) or not all(same(a, y, asc[ax], False, 1e-11) for ax, (a, y) in enumerate(zip(mv, asgrid))):
                     ctx.disagree("random", case, [float(x) for x in mv], asgrid.tolist(), "get_random_point draw")
             else:
                 pw = 2 if spec["cls"] != "spherical" else 3
                 got = [asgrid[0] ** pw] + ([asgrid[1]] if spec["cls"] == "cylindrical" else [])
-                sc = [float(b[0][1]) ** pw] + ([cs] if spec["cls"] == "cylindrical" else [])
+                sc = [float(b[0][1]) ** pw] + ([asc[1]] if spec["cls"] == "cylindrical" else [])
                 for a, y, s in zip(mv, got, sc):
-                    if abs(float(a) - y) > 1e-11 * s:
+                    if not (abs(float(a) - y) <= 1e-11 * s):
                         ctx.disagree("random", case, [float(x) for x in mv], got, "get_random_point draw (r^d, z)")
                         return
 
@@ -1293,14 +1604,14 @@ def leg_random(ctx, P, spec, rng):
 
 # ------------------------------------------------------------------------------------------
 # leg: malformed input -> error class
-def leg_malformed(ctx, rng):
+def malformed_table():
     import pde
     from pde.grids.base import DimensionError
     g2 = pde.CartesianGrid([(0, 1), (0, 2)], [2, 3], periodic=[True, False])
     cyl = pde.CylindricalSymGrid(2, (0, 1), [2, 2])
     pol = pde.PolarSymGrid(2, 3)
     f2 = pde.ScalarField(g2, 1.0)
-    table = [
+    return [
         ("polar inner>=outer", lambda: pde.PolarSymGrid((2, 1), 3), ValueError),
         ("spherical inner==outer", lambda: pde.SphericalSymGrid((1, 1), 3), ValueError),
         ("negative inner radius", lambda: pde.SphericalSymGrid((-1, 1), 3), ValueError),
@@ -1324,46 +1635,9 @@ def leg_malformed(ctx, rng):
         ("project unknown axis", lambda: f2.project("z"), ValueError),
         ("project unknown method", lambda: f2.project("x", method="median"), ValueError),
     ]
-    for name, fn, exc in table:
-        case = {"leg": "malformed", "what": name}
-        ctx.count(case, nontrivial=False, leg="malformed")
-        ctx.hist("malformed", exc.__name__)
-        ctx.monitor_evals += 1
-        try:
-            r = fn()
-            got = f"returned {r!r}"[:200]
-        except Exception as e:  # noqa: BLE001
-            got = type(e)
-        if not (isinstance(got, type) and issubclass(got, exc)):
-            ctx.disagree("malformed", case, exc.__name__, str(got), "expected error class")
-    _ = rng
 
 
-def leg_malformed_grid(ctx, spec, rng):
-    """malformed requests against a random valid grid: expected outcome is an error class"""
-    from pde.grids.base import DimensionError
-    g = build(spec)
-    k, d = len(spec["shape"]), dim_of(spec)
-    m = rng.choice([1, 3])
-    wrong = lambda n: np.zeros((m, n)) if m > 1 else np.zeros(n)
-    minL = min(float(hi - lo) for lo, hi in spec_bounds(spec))
-    table = [
-        ("transform cartesian wrong dim", lambda: g.transform(wrong(d + 1), "cartesian", rng.choice(["grid", "cell"])), DimensionError),
-        ("transform grid wrong dim", lambda: g.transform(wrong(k + 1), "grid", rng.choice(["cartesian", "cell"])), DimensionError),
-        ("transform cell wrong dim", lambda: g.transform(wrong(k + 1), "cell", rng.choice(["cartesian", "grid"])), DimensionError),
-        ("normalize wrong dim", lambda: g.normalize_point(wrong(k + 1), reflect=rng.random() < 0.5), DimensionError),
-        ("contains wrong dim", lambda: g.contains_point(wrong(d + 1)), DimensionError),
-        ("distance wrong dim", lambda: g.distance(wrong(k + 1), wrong(k + 1)), DimensionError),
-        ("random point too close", lambda: g.get_random_point(boundary_distance=0.51 * minL, avoid_center=True)
-         if spec["cls"] not in ("unit", "cartesian") else g.get_random_point(boundary_distance=0.51 * minL), RuntimeError),
-        # (integrate does not validate the data shape on grids whose cell volumes are all scalars: data of
-        #  shape N+1 is summed silently - observation, outside the property, see notes/C12.md)
-        ("integrate axis out of range", lambda: g.integrate(np.zeros(spec["shape"]), axes=[k]), ValueError),
-    ]
-    name, fn, exc = rng.choice(table)
-    case = {"leg": "malformed", "what": name, "grid": spec, "batch": m}
-    ctx.count(case, nontrivial=False, leg="malformed")
-    ctx.hist("malformed", f"{name} -> {exc.__name__}")
+def _expect_error(ctx, case, fn, exc):
     ctx.monitor_evals += 1
     try:
         r = fn()
@@ -1374,52 +1648,133 @@ def leg_malformed_grid(ctx, spec, rng):
         ctx.disagree("malformed", case, exc.__name__, str(got), "expected error class")
 
 
+def leg_malformed(ctx, rng, only=None):
+    for name, fn, exc in malformed_table():
+        if only is not None and name != only:
+            continue
+        case = {"leg": "malformed", "what": name}
+        _begin(case)
+        ctx.count(case, nontrivial=False, leg="malformed")
+        ctx.hist("malformed", exc.__name__)
+        _expect_error(ctx, case, fn, exc)
+    _ = rng
+
+
+def leg_malformed_grid(ctx, spec, rng, force=None):
+    """malformed requests against a random valid grid: expected outcome is an error class"""
+    from pde.grids.base import DimensionError
+    g = build(spec)
+    k, d = len(spec["shape"]), dim_of(spec)
+    if force is not None:
+        m, alt, name0 = int(force["batch"]), int(force.get("alt", 0)), force["what"]
+    else:
+        m, alt, name0 = rng.choice([1, 3]), rng.randrange(2), None
+    wrong = lambda n: np.zeros((m, n)) if m > 1 else np.zeros(n)
+    minL = min(float(hi - lo) for lo, hi in spec_bounds(spec))
+    table = [
+        ("transform cartesian wrong dim", lambda: g.transform(wrong(d + 1), "cartesian", ["grid", "cell"][alt]), DimensionError),
+        ("transform grid wrong dim", lambda: g.transform(wrong(k + 1), "grid", ["cartesian", "cell"][alt]), DimensionError),
+        ("transform cell wrong dim", lambda: g.transform(wrong(k + 1), "cell", ["cartesian", "grid"][alt]), DimensionError),
+        ("normalize wrong dim", lambda: g.normalize_point(wrong(k + 1), reflect=bool(alt)), DimensionError),
+        ("contains wrong dim", lambda: g.contains_point(wrong(d + 1)), DimensionError),
+        ("distance wrong dim", lambda: g.distance(wrong(k + 1), wrong(k + 1)), DimensionError),
+        ("random point too close", lambda: g.get_random_point(boundary_distance=0.51 * minL, avoid_center=True)
+         if spec["cls"] not in ("unit", "cartesian") else g.get_random_point(boundary_distance=0.51 * minL), RuntimeError),
+        # (integrate does not validate the data shape on grids whose cell volumes are all scalars: data of
+        #  shape N+1 is summed silently - observation, outside the property, see notes/C12.md)
+        ("integrate axis out of range", lambda: g.integrate(np.zeros(spec["shape"]), axes=[k]), ValueError),
+    ]
+    if name0 is None:
+        name, fn, exc = rng.choice(table)
+    else:
+        hit = [t for t in table if t[0] == name0]
+        if not hit:
+            raise KeyError(f"unknown malformed case {name0!r}")
+        name, fn, exc = hit[0]
+    case = {"leg": "malformed", "what": name, "grid": spec, "batch": m, "alt": alt}
+    _begin(case)
+    ctx.count(case, nontrivial=False, leg="malformed")
+    ctx.hist("malformed", f"{name} -> {exc.__name__}")
+    _expect_error(ctx, case, fn, exc)
+
+
 # ------------------------------------------------------------------------------------------
 # leg: coordinate maps with angles
-def leg_coordmaps(ctx, P, rng, n):
+def leg_coordmaps(ctx, P, rng, n, force=None):
+    """`force`: a recorded case - exactly its coordinate system and point"""
     from pde.grids.coordinates import CylindricalCoordinates, PolarCoordinates, SphericalCoordinates
     systems = {"polar": PolarCoordinates(), "spherical": SphericalCoordinates(), "cylindrical": CylindricalCoordinates()}
-    for _ in range(n):
-        name = rng.choice(list(systems))
+    if force is not None:
+        jobs = [(force["system"], [float(x) for x in force["point"]])]
+    else:
+        jobs = []
+        for _ in range(n):
+            name = rng.choice(list(systems))
+            r = rng.choice([0.0, dyadic(rng, 1, 64), rng.uniform(0, 1e3), 1e-8 * rng.random(), 1e-30 * (1 + rng.random()),
+                            1e30 * (1 + rng.random())])
+            phi = rng.choice([0.0, math.pi / 2, math.pi, rng.uniform(0, 2 * math.pi), rng.uniform(0, 2 * math.pi)])
+            theta = rng.choice([0.0, math.pi / 2, math.pi, rng.uniform(0, math.pi)])
+            z = rng.uniform(-5, 5) * rng.choice([1.0, 1.0, 1e-20, 1e20])
+            jobs.append((name, {"polar": [r, phi], "spherical": [r, theta, phi], "cylindrical": [r, phi, z]}[name]))
+    for name, pt in jobs:
         c = systems[name]
-        r = rng.choice([0.0, dyadic(rng, 1, 64), rng.uniform(0, 1e3), 1e-8 * rng.random()])
-        phi = rng.choice([0.0, math.pi / 2, math.pi, rng.uniform(0, 2 * math.pi), rng.uniform(0, 2 * math.pi)])
-        theta = rng.choice([0.0, math.pi / 2, math.pi, rng.uniform(0, math.pi)])
-        z = rng.uniform(-5, 5)
-        pt = {"polar": [r, phi], "spherical": [r, theta, phi], "cylindrical": [r, phi, z]}[name]
+        r = pt[0]
         case = {"leg": "coordmaps", "system": name, "point": pt}
+        _begin(case)
         ctx.count(case, nontrivial=(r != 0), leg="coordmaps")
         ctx.hist("coordmaps", name)
-        cart = np.array(c.pos_to_cart(np.array(pt)), dtype=float)
-        back = np.array(c.pos_from_cart(cart), dtype=float)
-        jac = np.array(c.mapping_jacobian(np.array(pt)), dtype=float)
-        volf = float(c.volume_factor(np.array(pt)))
+        try:
+            cart = np.array(c.pos_to_cart(np.array(pt)), dtype=float)
+            back = np.array(c.pos_from_cart(cart), dtype=float)
+            jac = np.array(c.mapping_jacobian(np.array(pt)), dtype=float)
+            volf = float(c.volume_factor(np.array(pt)))
+            again = np.array(c.pos_to_cart(back), dtype=float)
+        except Exception as e:  # noqa: BLE001
+            raised(ctx, "coordmaps", case, {"cls": name}, e, f"{type(c).__name__}.pos_to_cart / pos_from_cart / mapping_jacobian")
+            continue
         ctx.monitor_evals += 1
         bad = None
-        sc = max(r, abs(z), 1e-300)
-        if abs(float(np.linalg.norm(cart[:2] if name != "spherical" else cart)) - r) > TOL * sc:
-            bad = f"|pos_to_cart| = {np.linalg.norm(cart)!r} != r = {r!r}"
-        if abs(back[0] - r) > TOL * sc:
-            bad = f"pos_from_cart(pos_to_cart(p)) has r = {back[0]!r} != {r!r}"
-        again = np.array(c.pos_to_cart(back), dtype=float)
-        if np.max(np.abs(again - cart)) > 1e-11 * sc:
-            bad = f"pos_to_cart(pos_from_cart(x)) = {again.tolist()} != x = {cart.tolist()}"
-        if abs(abs(np.linalg.det(jac)) - abs(volf)) > 1e-11 * max(1.0, sc ** 2):
-            bad = f"|det(jacobian)| = {abs(np.linalg.det(jac))!r} != volume_factor = {volf!r}"
+        # the scale of every quantity is its OWN scale: the radius for the radial part (polar and
+        # spherical coordinates have no z), |z| for the axial component of cylindrical coordinates
+        sr = max(r, 1e-300)
+        comp = np.array([sr, sr, max(abs(pt[2]), 1e-300)]) if name == "cylindrical" else np.full(len(cart), sr)
+        dim = len(pt)
+        if cart.shape != (dim,) or back.shape != (dim,) or jac.shape != (dim, dim) or again.shape != (dim,):
+            bad = f"shapes {cart.shape} {back.shape} {jac.shape}"
+        elif not (np.all(np.isfinite(cart)) and np.all(np.isfinite(back)) and np.all(np.isfinite(jac)) and math.isfinite(volf)):
+            bad = f"non-finite image of a finite point: {cart.tolist()} {back.tolist()} {jac.tolist()} {volf!r}"
+        else:
+            if not (abs(float(np.linalg.norm(cart[:2] if name != "spherical" else cart)) - r) <= TOL * sr):
+                bad = f"|pos_to_cart| = {np.linalg.norm(cart)!r} != r = {r!r}"
+            if name == "cylindrical" and cart[2] != pt[2]:
+                bad = f"pos_to_cart changes z: {cart[2]!r} != {pt[2]!r}"
+            if not (abs(back[0] - r) <= TOL * sr):
+                bad = f"pos_from_cart(pos_to_cart(p)) has r = {back[0]!r} != {r!r}"
+            if far(again, cart, 1e-11 * comp):
+                bad = f"pos_to_cart(pos_from_cart(x)) = {again.tolist()} != x = {cart.tolist()}"
+            # |det J| is the volume factor: r (polar, cylindrical), r^2 sin(theta) (spherical)
+            vsc = sr * sr if name == "spherical" else sr
+            det = float(np.linalg.det(jac))
+            if not (abs(abs(det) - abs(volf)) <= 1e-11 * vsc):
+                bad = f"|det(jacobian)| = {abs(det)!r} != volume_factor = {volf!r}"
         if bad:
             ctx.monitor_fail("coordmaps", case, {"cart": cart.tolist(), "back": back.tolist(), "problem": bad},
                              "mutually inverse coordinate maps", f"{name}: pos_to_cart/pos_from_cart",
                              key={"system": name, "leg": "coordmaps"})
+            continue
+        phi = pt[-1] if name != "cylindrical" else pt[1]
+        theta = pt[1] if name == "spherical" else 0.0
+        z = pt[2] if name == "cylindrical" else 0.0
         args = {"system": name, "r": q(r), "cp": q(math.cos(phi)), "sp": q(math.sin(phi)),
                 "ct": q(math.cos(theta)), "st": q(math.sin(theta)), "z": q(z)}
 
-        def cont(resp, case=case, cart=cart, sc=sc):
+        def cont(resp, case=case, cart=cart, comp=comp):
             mres = expect_ok(ctx, resp, "coordmaps", case)
             if mres is None:
                 return
             ctx.impl_traces += 1
             mv = [unq(x) for x in mres]
-            if not same_list(mv, cart, sc, False, TOL):
+            if len(mv) != len(cart) or not all(same(a, y, float(s), False, TOL) for a, y, s in zip(mv, cart, comp)):
                 ctx.disagree("coordmaps", case, [float(x) for x in mv], cart.tolist(), "pos_to_cart")
 
         P.add("c12.tocart", args, cont)
@@ -1448,6 +1803,9 @@ REGRESSION_GRIDS = [
     # the half-period tie in both directions
     ({"cls": "unit", "shape": [4, 2], "periodic": [True, True], "mode": "dyadic"}, "grid",
      [[0.5, 0.5], [2.5, 1.5]], [[2.5, 1.5], [0.5, 0.5]], False),
+    # two axes whose scales differ by 10^11: the small periodic axis is judged at ITS scale
+    ({"cls": "cartesian", "bounds": [[0.0, 1e-6], [0.0, 1e5]], "shape": [4, 4], "periodic": [True, True],
+      "mode": "decimal"}, "grid", [[1e-7, 1e4], [2e-7, 9e4]], [[9e-7, 9e4], [7.5e-7, 2e4]], False),
 ]
 
 
@@ -1460,9 +1818,12 @@ def run(ctx):
         ctx.hist("stream", "regression")
         if not _guard(ctx, "construct", spec, lambda: build(spec)):
             continue
+        forced = {"coords": rc, "p1": rp1, "p2": rp2, "int_points": rint, "int_container": "list"}
         _guard(ctx, "geometry", spec, lambda: leg_geometry(ctx, P, spec))
-        _guard(ctx, "distance", spec, lambda: leg_distance(ctx, P, spec, rng, force=(rc, rp1, rp2, rint)))
+        _guard(ctx, "distance", spec, lambda: leg_distance(ctx, P, spec, rng, force=forced))
         _guard(ctx, "distance", spec, lambda: leg_distance(ctx, P, spec, rng))
+        _guard(ctx, "normalize", spec, lambda: leg_normalize(ctx, P, spec, rng))
+        _guard(ctx, "transform", spec, lambda: leg_transform(ctx, P, spec, rng))
     # every class with 1 cell per axis
     for cls in ["unit", "cartesian", "polar", "spherical", "cylindrical"]:
         for mode in ["dyadic", "decimal"]:
@@ -1475,6 +1836,11 @@ def run(ctx):
         spec = gen_grid(rng, cls, mode, small=(i % 3 != 0))
         ctx.hist("grid-class", f"{cls}/{len(spec['shape'])}axes/{mode}")
         ctx.hist("cells", "x".join(str(n) for n in spec["shape"]))
+        b = spec_bounds(spec)
+        ext = [float(max(abs(lo), abs(hi))) for lo, hi in b]
+        ctx.hist("bounds-scale", f"1e{int(math.floor(math.log10(max(ext))))}")
+        if len(ext) > 1:
+            ctx.hist("axis-scale-ratio", f"1e{int(round(math.log10(max(ext) / max(min(ext), 1e-300))))}")
         all_legs(ctx, P, spec, rng, full=(i % 3 != 0))
         if (i + 1) % 1000 == 0:
             P.run()          # bounded memory: compare and drop the pending cases
@@ -1483,26 +1849,43 @@ def run(ctx):
     P.run()
 
 
-def _guard(ctx, leg, spec, fn):
-    """run one leg; an exception raised *inside the real code* on a valid input is a failure of
-    the property on that input (reported with the input), one raised by the harness is a broken
-    check"""
+def paths_repo():
+    from harness.common import paths
+    return paths.REPO
+
+
+def _from_real_code(e):
+    """True if the exception was raised while the real code was executing: below the deepest
+    harness frame of the traceback there is a frame of the package under verification (the
+    exception itself may surface in numpy / the standard library called by it)"""
     import traceback
     from harness.common import paths
+    repo = os.path.realpath(paths.REPO) + os.sep
+    here = os.path.realpath(os.path.dirname(os.path.abspath(__file__))) + os.sep
+    tb = traceback.extract_tb(e.__traceback__)
+    files = [os.path.realpath(fr_.filename) for fr_ in tb]
+    last_harness = max((i for i, f in enumerate(files) if f.startswith(here)), default=-1)
+    return any(f.startswith(repo) and not f.startswith(here) for f in files[last_harness + 1:]), tb
+
+
+def _guard(ctx, leg, spec, fn):
+    """run one leg; an exception raised while the real code executes on a valid input is a failure
+    of the property on that input (reported with the concrete inputs of the case that was being
+    executed), one raised by the harness itself is a broken check"""
+    _CUR["case"] = None
     try:
         fn()
         return True
     except Exception as e:  # noqa: BLE001
-        tb = traceback.extract_tb(e.__traceback__)
-        last = tb[-1].filename if tb else ""
-        if not (last.startswith(paths.REPO) and "harness" not in last):
+        real, tb = _from_real_code(e)
+        if not real:
             raise
-        case = {"leg": leg, "grid": spec}
+        cur = _CUR["case"]
+        case = cur if isinstance(cur, dict) and cur.get("leg") == leg else {"leg": leg, "grid": spec, "sub": "crash"}
         ctx.count(case, nontrivial=False, leg="crash")
-        ctx.monitor_evals += 1
-        ctx.monitor_fail(leg, case, f"{type(e).__name__}: {e} at {tb[-1].filename}:{tb[-1].lineno}",
-                         "no exception on a valid grid / point", f"{(spec or {}).get('cls')}: real code raised in leg {leg}",
-                         key={"grid_class": (spec or {}).get("cls"), "leg": leg})
+        repo = os.path.realpath(paths_repo()) + os.sep
+        where = next((f"{fr_.filename}:{fr_.lineno}" for fr_ in reversed(tb) if os.path.realpath(fr_.filename).startswith(repo)), "?")
+        raised(ctx, leg, case, spec if isinstance(spec, dict) else None, e, f"leg {leg} at {where}")
         return False
 
 
@@ -1518,31 +1901,32 @@ def all_legs(ctx, P, spec, rng, full=True):
     _guard(ctx, "normalize", spec, lambda: leg_normalize(ctx, P, spec, rng))
     _guard(ctx, "distance", spec, lambda: leg_distance(ctx, P, spec, rng))
     _guard(ctx, "random", spec, lambda: leg_random(ctx, P, spec, rng))
-    leg_malformed_grid(ctx, spec, rng)
+    _guard(ctx, "malformed", spec, lambda: leg_malformed_grid(ctx, spec, rng))
     _ = full
 
 
 # ------------------------------------------------------------------------------------------
 def search(ctx, broken):
-    """failing-input search after a broken correspondence: rerun the monitors of every leg on the
-    grids of the disagreeing cases and on a fresh larger sample (the monitors are evaluated by the
-    legs themselves; their failures are collected from a scratch context)"""
+    """failing-input search after a broken correspondence: first the monitors on exactly the
+    recorded inputs of the disagreeing cases, then the monitors of every leg on their grids and
+    on a fresh larger sample (the monitors are evaluated by the legs themselves; their failures
+    are collected from a scratch context)"""
     from harness.common.context import Ctx
     sub = Ctx(ctx.pid, ctx.tier, ctx.seed, ctx.workdir)
     sub.rng = ctx.sub_rng("search")
-
-    class NoModel:
-        def add(self, *a, **k):
-            pass
-
-        def run(self):
-            pass
-
     P = NoModel()
     specs = []
-    for d in broken:
+    for d in broken[:200]:
         c = d.get("case") if isinstance(d, dict) else None
-        if isinstance(c, dict) and isinstance(c.get("grid"), dict) and c["grid"] not in specs:
+        if not isinstance(c, dict):
+            continue
+        try:
+            run_case(sub, P, c)
+        except Exception:  # noqa: BLE001
+            pass
+        if sub.monitor_failures:
+            return sub.monitor_failures[:1]
+        if isinstance(c.get("grid"), dict) and c["grid"] not in specs:
             specs.append(c["grid"])
     for spec in specs[:40]:
         for _ in range(5):
@@ -1564,40 +1948,86 @@ def search(ctx, broken):
     return []
 
 
-def replay(ctx, rep):
-    """re-run the leg of a replay file on the real code (monitors only)"""
-    from harness.common.context import Ctx
-    c = rep["case"]
-    sub = Ctx(ctx.pid, ctx.tier, ctx.seed, ctx.workdir)
-
-    class NoModel:
-        def add(self, *a, **k):
-            pass
-
-    P = NoModel()
+def run_case(sub, P, c):
+    """execute exactly the recorded case `c` (same leg, same inputs, same argument forms) on the
+    real code: monitors into `sub`, model requests into `P`.  Returns False if the case carries no
+    replayable inputs."""
     leg = c.get("leg")
     spec = c.get("grid")
-    if leg == "geometry":
-        leg_geometry(sub, P, spec)
-    elif leg == "distance":
-        g = build(spec)
-        p1, p2 = c["p1"], c["p2"]
-        if not c.get("int_points"):
-            p1, p2 = np.array(p1, dtype=float), np.array(p2, dtype=float)
-        print("difference_vector:", np.asarray(g.difference_vector(_cp(p1), _cp(p2), coords=c["coords"])).tolist())
-        print("distance:", np.asarray(g.distance(_cp(p1), _cp(p2), coords=c["coords"])).tolist(),
-              "reverse:", np.asarray(g.distance(_cp(p2), _cp(p1), coords=c["coords"])).tolist())
-        leg_distance(sub, P, spec, ctx.sub_rng("replay"), force=(c["coords"], c["p1"], c["p2"], bool(c.get("int_points"))))
-    elif leg in ("integrate", "project", "transform", "contains", "normalize", "random"):
-        rng = ctx.sub_rng("replay")
-        for _ in range(20):
-            {"integrate": leg_integrate, "project": leg_project, "transform": leg_transform,
-             "contains": leg_contains, "normalize": leg_normalize, "random": leg_random}[leg](sub, P, spec, rng)
-    else:
-        print("nothing to replay for leg", leg)
+    if leg == "coordmaps":
+        return _guard(sub, leg, None, lambda: leg_coordmaps(sub, P, None, 0, force=c)) or True
+    if leg == "malformed" and spec is None:
+        _guard(sub, leg, None, lambda: leg_malformed(sub, None, only=c.get("what")))
         return True
-    for mf in sub.monitor_failures[:3]:
-        print("monitor FAILS:", mf["what"], mf["observed"])
-    if not sub.monitor_failures:
-        print("monitor: holds")
-    return not sub.monitor_failures
+    if not isinstance(spec, dict):
+        return False
+    if not _guard(sub, "construct", spec, lambda: build(spec)):
+        return True          # the grid cannot be built any more: that is the failure
+    if leg == "construct":
+        sub.monitor_evals += 1
+        return True
+    if c.get("sub") == "crash":
+        return False         # an exception outside any case: no inputs were recorded
+    fn = {
+        "geometry": lambda: leg_geometry(sub, P, spec),
+        "integrate": lambda: leg_integrate(sub, P, spec, None, force=c),
+        "project": lambda: leg_project(sub, P, spec, None, force=c),
+        "transform": lambda: leg_transform(sub, P, spec, None, force=c),
+        "contains": lambda: leg_contains(sub, P, spec, None, force=c),
+        "normalize": lambda: leg_normalize(sub, P, spec, None, force=c),
+        "distance": lambda: leg_distance(sub, P, spec, None, force=c),
+        "random": lambda: leg_random(sub, P, spec, None, force=c),
+        "malformed": lambda: leg_malformed_grid(sub, spec, None, force=c),
+    }.get(leg)
+    if fn is None:
+        return False
+    _guard(sub, leg, spec, fn)
+    return True
+
+
+def replay(ctx, rep):
+    """Re-run the RECORDED case of a replay file on the real code: the same leg with the same grid,
+    points, axes, data, seeds, container types and argument forms, through the same code path as
+    the run that produced the file, and judge it with the same monitor.  False iff it still fails.
+    A file written for a broken correspondence (`broken`: list of cases) re-runs every recorded
+    case against the model as well."""
+    from harness.common.context import Ctx
+    sub = Ctx(ctx.pid, ctx.tier, ctx.seed, ctx.workdir)
+    sub.rng = None           # nothing is drawn during a replay
+    if "case" in rep and isinstance(rep["case"], dict):
+        cases, P = [rep["case"]], NoModel()
+    elif isinstance(rep.get("broken"), list):
+        cases = [d.get("case") for d in rep["broken"] if isinstance(d, dict) and isinstance(d.get("case"), dict)]
+        try:
+            P = Pending(sub)
+        except Exception as e:  # noqa: BLE001
+            print("model driver not available:", e)
+            P = NoModel()
+        if not cases:
+            print("cannot replay: the file records no case (a generated proof obligation is re-checked by ./check itself)")
+            return False
+    else:
+        print("cannot replay: the file records no case")
+        return False
+    ok = True
+    for c in cases:
+        print("replaying leg", c.get("leg"), "on", json.dumps(c, default=str)[:300])
+        if not run_case(sub, P, c):
+            print("cannot replay: the recorded case carries no inputs for leg", c.get("leg"))
+            ok = False
+    try:
+        P.run()
+    except Exception as e:  # noqa: BLE001
+        print("model comparison not possible:", str(e)[:300])
+        ok = False
+    if sub.monitor_evals == 0:
+        print("cannot replay: no monitor was evaluated on the recorded case")
+        ok = False
+    what = rep.get("what")
+    for mf in sub.monitor_failures[:5]:
+        print("monitor FAILS:", mf["what"], "(the recorded symptom)" if what and mf["what"] == what else "", json.dumps(mf["observed"], default=str)[:600])
+    for dd in sub.disagreements[:5]:
+        print("model != code:", dd.get("leg"), dd.get("note"), json.dumps({"model": dd.get("model"), "impl": dd.get("impl")}, default=str)[:400])
+    if ok and not sub.monitor_failures and not sub.disagreements:
+        print(f"monitor: holds ({sub.monitor_evals} evaluations on the recorded inputs)")
+    return ok and not sub.monitor_failures and not sub.disagreements
